@@ -20,8 +20,10 @@ called, on loop shapes or on the spelling of branch conditions:
   * comparator evaluation with the finite interpreter (ivy.interp) over the three orderings of
                the key pair, operands classified by the parameter their container derives from.
 """
+import os
+import copy
 from ..core import (AnalysisBroken, Inliner, canon, strip, walk, last_member, lvalue_steps, norm_cond,
-                    fold, forward, relpath, _keys_read, _pure_path)
+                    fold, forward, relpath, _keys_read, _pure_path, partition_flags, copy_propagate, Block, Func, _is_boolean_expr)
 from ..analyses import callback_kind, clone_cfg
 from .. import interp
 
@@ -37,6 +39,18 @@ MAXSTATES = 600
 # roles
 # --------------------------------------------------------------------------
 
+def flag_partitioned_source(f):
+    """f as the source spells it (no copy propagation: the rule using this is about what the source says of a local)
+    but with flag locals eliminated by partitioning, i.e. path-sensitive in `more = (p != NULL) && ...; while (more)`"""
+    if getattr(f, '_d', None) is None:
+        return f
+    g = Func(f._d, f.unit, copyprop=False)
+    g.q = getattr(f, 'q', f.name)
+    if os.environ.get('IVY_NO_FLAGS') != '1':
+        g.flags = partition_flags(g)
+    return g
+
+
 def _cache(prog):
     return prog.__dict__.setdefault('_h20_cache', {})
 
@@ -46,8 +60,1566 @@ def inlined_local(prog, f):
     stay calls."""
     c = _cache(prog)
     if ('inl', f.q) not in c:
-        c[('inl', f.q)] = Inliner(prog, stop=lambda t, f=f: t.file.endswith('.c') and t.file != f.file).inline(f)
+        inl = TableInliner(prog, stop=lambda t, f=f: t.file.endswith('.c') and t.file != f.file)
+        g = inl.inline(f)
+        tabled = inl.decide_table_calls(g)
+        scal = scalarize(prog, g)
+        fused = fuse_result_copies(g)
+        if scal or tabled or fused:
+            # the core's normalisations once more, now that out-parameters and context structs are plain locals
+            if os.environ.get('IVY_NO_FLAGS') != '1':
+                g.flags = partition_flags(g)
+            if os.environ.get('IVY_NO_COPYPROP') != '1':
+                try:
+                    copy_propagate(g)
+                except AnalysisBroken:
+                    pass
+        c[('inl', f.q)] = prune_constant_branches(g)
     return c[('inl', f.q)]
+
+
+def function_table(prog, unit, name):
+    """[function name, ...] if the global `name` is an array of function designators that nobody writes
+    (const-qualified, or no store to it anywhere in the program), else None"""
+    c = _cache(prog)
+    key = ('ftable', unit, name)
+    if key in c:
+        return c[key]
+    gl = prog.globals.get('%s:%s' % (unit, name)) or prog.globals.get(name)
+    out = None
+    if gl and not gl.get('extern_decl') and 'bound' in gl and isinstance(gl.get('init'), dict) and gl['init'].get('k') == 'init':
+        names = []
+        for el in gl['init'].get('elems') or []:
+            el = strip(el)
+            if isinstance(el, dict) and el.get('k') == 'addr':
+                el = strip(el['e'])
+            if isinstance(el, dict) and el.get('k') == 'var' and el.get('vk') == 'func':
+                names.append(el['name'])
+            else:
+                names = None
+                break
+        if names and len(names) == gl['bound']:
+            t = gl.get('type', '')
+            const = 'const' in t.split('[')[0].split('(*')[-1]
+            if not const:
+                const = True
+                for fn in prog.all_funcs():
+                    for e in fn.pristine().events() if hasattr(fn, 'pristine') else fn.events():
+                        for x in walk(e) if e['ev'] == 'store' else ():
+                            if x.get('k') == 'var' and x.get('vk') == 'global' and x.get('name') == name:
+                                const = False
+            if const:
+                out = names
+    c[key] = out
+    return out
+
+
+def constant_table_elem(prog, var, i):
+    """value of element i of the global array `var` if that array is const-qualified and initialised with integer
+    constants, else None"""
+    t = var.get('type', '')
+    if 'const' not in t.split('[')[0].split():
+        return None
+    cands = [gl for key, gl in prog.globals.items() if gl.get('name') == var['name'] and not gl.get('extern_decl')
+             and isinstance(gl.get('init'), dict)]
+    if len(cands) != 1 or 'bound' not in cands[0] or cands[0].get('type') != t:
+        return None
+    elems = cands[0]['init'].get('elems') or []
+    if not (0 <= i < len(elems)):
+        return None
+    return const_of(elems[i]) if isinstance(elems[i], dict) else None
+
+
+class TableInliner(Inliner):
+    """Inliner that also enters calls through a constant table of functions (`step[wd > w->wd](an)`): the call is
+    expanded like a method dispatch over the table's entries, and decide_table_calls() then turns the
+    non-deterministic dispatch into branches on the index expression, so that the result is the CFG of the
+    equivalent if-chain."""
+
+    def __init__(self, *a, **kw):
+        Inliner.__init__(self, *a, **kw)
+        self.table_sites = {}
+        self.ntemps = 0
+        self._rens = []
+
+    @staticmethod
+    def _retyped(p, a):
+        """the argument gives parameter p (a pointer to a record) its type: a cast of a differently typed pointer or
+        pointer arithmetic (`(struct inotify_event *)curr`), not a variable of that type nor an address expression"""
+        if not (p.get('ptr') and p.get('record')):
+            return False
+        x = strip(a)
+        if not isinstance(x, dict):
+            return False
+        if x.get('k') == 'var':
+            return x.get('record') != p['record']
+        return x.get('k') == 'bin'
+
+    def _emit(self, f, ren, chain, active, depth, retvar):
+        """A helper parameter of record-pointer type whose argument only acquires that type at the call
+        (`deliver(ino, (struct inotify_event *)curr)`) is kept as a local of the inlined function, defined at the call,
+        exactly like `struct inotify_event *ev = (struct inotify_event *)curr;` in the caller would be; the core
+        inliner would substitute the argument expression and the typed object pointer would vanish."""
+        pre = []
+        if depth > 0 and ren and chain:
+            ren = dict(ren)
+            for p in f.params:
+                a = ren.get(p['name'])
+                if isinstance(a, dict) and self._retyped(p, a):
+                    self.ntemps += 1
+                    nm = '%s@p%d' % (p['name'], self.ntemps)
+                    pv = {'k': 'var', 'name': nm, 'vk': 'local', 'type': p['type'], 'record': p['record'], 'ptr': p.get('ptr')}
+                    pre.append({'ev': 'store', 'op': '=', 'lhs': pv, 'rhs': a, 'loc': chain[-1][1], 'chain': chain[:-1],
+                                'fn': chain[-1][0], 'is_param': True})
+                    ren[p['name']] = nm
+        self._rens.append(ren or {})
+        try:
+            entry, exits = Inliner._emit(self, f, ren, chain, active, depth, retvar)
+        finally:
+            self._rens.pop()
+        if pre:
+            entry = self._newblock(pre, [entry], None)
+        return entry, exits
+
+    def _designated(self, caller, fe):
+        """function a function-pointer expression certainly denotes: a parameter of the helper being inlined whose
+        argument is a function designator (`for_each(queue, n, deliver_one, ctx)`: `fn(ctx, ev)` calls deliver_one), or a
+        member of a const-qualified file-scope struct initialised with one (`static const struct ops { .add = f }`)"""
+        unit = self.prog.unit_of(caller)
+        if isinstance(fe, dict) and fe.get('k') == 'var' and fe.get('vk') in ('local', 'param') and self._rens:
+            rep = self._rens[-1].get(fe['name'])
+            rep = strip(rep) if isinstance(rep, dict) else None
+            if isinstance(rep, dict) and rep.get('k') == 'addr':
+                rep = strip(rep['e'])
+            if isinstance(rep, dict) and rep.get('k') == 'var' and rep.get('vk') == 'func':
+                return self.prog.resolve(unit, rep['name'])
+            return None
+        if isinstance(fe, dict) and fe.get('k') == 'member' and not fe.get('arrow'):
+            b = fe.get('base')
+            if isinstance(b, dict) and b.get('k') == 'var' and b.get('vk') == 'global' and 'const' in (b.get('type') or '').split():
+                cands = [gl for gl in self.prog.globals.values() if gl.get('name') == b['name'] and not gl.get('extern_decl')
+                         and isinstance(gl.get('init'), dict) and gl.get('type') == b.get('type')]
+                if len(cands) == 1:
+                    v = strip((cands[0]['init'].get('fields') or {}).get(fe['field']))
+                    if isinstance(v, dict) and v.get('k') == 'addr':
+                        v = strip(v['e'])
+                    if isinstance(v, dict) and v.get('k') == 'var' and v.get('vk') == 'func':
+                        return self.prog.resolve(unit, v['name'])
+        return None
+
+    def _targets(self, caller, e, known_table=None):
+        r = Inliner._targets(self, caller, e, known_table)
+        if r or 'callee' in e:
+            return r
+        fe = strip(e.get('fnexpr'))
+        while isinstance(fe, dict) and fe.get('k') == 'deref':
+            fe = strip(fe['e'])
+        t = self._designated(caller, fe)
+        if t is not None:
+            return [t] if t.blocks and not self.stop(t) else None
+        if not (isinstance(fe, dict) and fe.get('k') == 'index' and _pure_path(fe.get('idx') or {})):
+            return None
+        base = strip(fe['base'])
+        if not (isinstance(base, dict) and base.get('k') == 'var' and base.get('vk') == 'global'):
+            return None
+        unit = self.prog.unit_of(caller)
+        names = function_table(self.prog, unit, base['name'])
+        if not names:
+            return None
+        ts = [self.prog.resolve(unit, n) for n in names]
+        if any(t is None or not t.blocks or self.stop(t) for t in ts) or len(set(t.q for t in ts)) != len(ts):
+            return None
+        self.table_sites[e.get('loc')] = [t.q for t in ts]
+        return ts
+
+    def decide_table_calls(self, g):
+        changed = False
+        for b in list(g.blocks):
+            blk = g.blocks[b]
+            if not (blk.term and blk.term.get('cls') == 'MethodDispatch' and blk.term.get('loc') in self.table_sites):
+                continue
+            ent = blk.events[-1] if blk.events and blk.events[-1]['ev'] == 'enter' else None
+            fe = strip(ent.get('fnexpr')) if ent else None
+            while isinstance(fe, dict) and fe.get('k') == 'deref':
+                fe = strip(fe['e'])
+            if not (isinstance(fe, dict) and fe.get('k') == 'index') or len(blk.succ) != len(self.table_sites[blk.term['loc']]):
+                continue
+            idx = fe['idx']
+            loc = blk.term['loc']
+            si = strip(idx)
+            boolean = isinstance(si, dict) and ((si.get('k') == 'bin' and si['op'] in CMPOPS + ('&&', '||')) or
+                                                (si.get('k') == 'un' and si['op'] == '!'))
+            succ = list(blk.succ)
+            if len(succ) == 2 and boolean:
+                blk.term = {'cls': 'IfStmt', 'cond': idx, 'loc': loc, 'table': True}
+                blk.succ = [succ[1], succ[0]]
+            else:
+                # idx == 0 ? T0 : idx == 1 ? T1 : ... : T(n-1)
+                cur = blk
+                for i, target in enumerate(succ[:-1]):
+                    cond = {'k': 'bin', 'op': '==', 'l': idx, 'r': {'k': 'int', 'v': i}}
+                    if i < len(succ) - 2:
+                        nid = max(g.blocks) + 1
+                        g.blocks[nid] = Block(nid, [], [], None)
+                        nxt = nid
+                    else:
+                        nxt = succ[-1]
+                    cur.term = {'cls': 'IfStmt', 'cond': cond, 'loc': loc, 'table': True}
+                    cur.succ = [target, nxt]
+                    cur = g.blocks[nxt]
+            changed = True
+        if changed:
+            g._preds = None
+        return changed
+
+
+def _map_expr(x, fn):
+    """bottom-up rewrite of an expression tree (new nodes; shared sub-trees are never mutated)"""
+    if isinstance(x, list):
+        out = [_map_expr(y, fn) for y in x]
+        return out if any(a is not b for a, b in zip(out, x)) else x
+    if not isinstance(x, dict) or 'k' not in x:
+        return x
+    new = None
+    for key, val in x.items():
+        if isinstance(val, (dict, list)) and not key.startswith('_') and key != 'sizeof':
+            v2 = _map_expr(val, fn)
+            if v2 is not val:
+                if new is None:
+                    new = dict(x)
+                new[key] = v2
+    return fn(new if new is not None else x)
+
+
+_EXPR_KEYS = ('lhs', 'rhs', 'e', 'args', 'fnexpr', 'value', 'init')
+
+
+def _rewrite_cfg(g, fn):
+    """apply the node rewrite fn to every expression of g (events and branch conditions); True if anything changed"""
+    changed = False
+    for blk in g.blocks.values():
+        for i, e in enumerate(blk.events):
+            upd = {}
+            for key in _EXPR_KEYS:
+                if key in e and isinstance(e[key], (dict, list)):
+                    v2 = _map_expr(e[key], fn)
+                    if v2 is not e[key]:
+                        upd[key] = v2
+            if upd:
+                blk.events[i] = dict(e, **upd)
+                changed = True
+        if blk.term and isinstance(blk.term.get('cond'), dict):
+            c2 = _map_expr(blk.term['cond'], fn)
+            if c2 is not blk.term['cond']:
+                blk.term = dict(blk.term, cond=c2)
+                changed = True
+    return changed
+
+
+def _unwrap(x):
+    """x without load / cast wrappers"""
+    while isinstance(x, dict) and x.get('k') in ('load', 'cast') and 'e' in x:
+        x = x['e']
+    return x
+
+
+def _tokenize_self_addresses(g, cands):
+    """`L = &ctx` where ctx is a local struct and L a local pointer-sized location (a local, or a member of a local
+    struct) that is only ever tested against NULL or has its address taken: the address of a local is just *some*
+    non-NULL value there (a liveness word initialised with `p->live = p`), so the store is rewritten to store the
+    non-NULL constant 1 and `&ctx` does not count as an escape of the struct.  True if anything was rewritten."""
+    def loc_key(x):
+        x = _unwrap(x)
+        names = []
+        while isinstance(x, dict) and x.get('k') == 'member' and not x.get('arrow'):
+            names.append(x['field'])
+            x = x['base']
+        if isinstance(x, dict) and x.get('k') == 'var' and x.get('vk') == 'local':
+            return '.'.join([x['name']] + list(reversed(names)))
+        return None
+    want = {}
+    for blk in g.blocks.values():
+        for i, e in enumerate(blk.events):
+            if e['ev'] == 'store' and e.get('op') == '=' and 'rhs' in e:
+                r = _unwrap(e['rhs'])
+                if isinstance(r, dict) and r.get('k') == 'addr' and isinstance(r.get('e'), dict) and r['e'].get('k') == 'var' \
+                        and r['e'].get('name') in cands:
+                    key = loc_key(e['lhs'])
+                    if key is not None:
+                        want.setdefault(key, []).append((blk, i))
+    if not want:
+        return False
+    bad = set()
+
+    def visit(x, parent, in_cond):
+        if isinstance(x, list):
+            for y in x:
+                visit(y, parent, in_cond)
+            return
+        if not isinstance(x, dict) or 'k' not in x:
+            return
+        if x.get('k') in ('var', 'member'):
+            key = loc_key(x)
+            if key in want:
+                p = parent
+                ok = False
+                if p is None:
+                    ok = in_cond
+                elif p.get('k') == 'addr':
+                    ok = True
+                elif p.get('k') == 'un' and p.get('op') == '!':
+                    ok = True
+                elif p.get('k') == 'bin' and p.get('op') in ('&&', '||'):
+                    ok = True
+                elif p.get('k') == 'bin' and p.get('op') in ('==', '!='):
+                    other = p['r'] if _unwrap(p['l']) is _unwrap(x) or _unwrap(p['l']) is x else p['l']
+                    ok = const_of(other) == 0
+                if not ok:
+                    bad.add(key)
+                return
+        for k2, val in x.items():
+            if isinstance(val, (dict, list)) and not k2.startswith('_') and k2 != 'sizeof':
+                visit(val, parent if x.get('k') in ('load', 'cast') else x, in_cond)
+    for blk in g.blocks.values():
+        for e in blk.events:
+            if e['ev'] == 'load':
+                continue
+            for key in _EXPR_KEYS:
+                if key in e and isinstance(e[key], (dict, list)):
+                    if key == 'lhs' and e['ev'] == 'store' and loc_key(e[key]) in want:
+                        continue
+                    visit(e[key], None, False)
+        if blk.term and isinstance(blk.term.get('cond'), dict):
+            visit(blk.term['cond'], None, True)
+    done = False
+    for key, sites in want.items():
+        if key in bad:
+            continue
+        for blk, i in sites:
+            blk.events[i] = dict(blk.events[i], rhs={'k': 'int', 'v': 1, 'type': 'void *', 'was_local_address': True})
+            done = True
+    return done
+
+
+def scalarize(prog, g):
+    """Normalisations of an inlined function that make out-parameters, accessor helpers returning addresses, local
+    context structs, small constant tables and pointer-to-pointer cursors irrelevant (each described at its function);
+    iterated to a fixpoint because each enables the others.  Mutates g; returns True if anything changed."""
+    changed = False
+    for _ in range(5):
+        c = _rewrite_addr(prog, g)
+        c = _struct_copies(prog, g) or c
+        c = _sroa(prog, g) or c
+        c = _forward_addresses(g) or c
+        c = _shadow_cursors(g) or c
+        c = _coalesce_int_copies(g) or c
+        c = _partition_counters(g) or c
+        c = _sroa_arrays(g) or c
+        if not c:
+            break
+        changed = True
+    if changed:
+        _renumber(g)
+    return changed
+
+
+def _struct_record(prog, x):
+    """record name if the expression node x is a struct object (not a pointer to one)"""
+    if not isinstance(x, dict) or x.get('ptr') or x.get('tptr'):
+        return None
+    t = (x.get('type') or '').replace('const ', '').strip()
+    if t.endswith('*') or t.endswith(']'):
+        return None
+    rec = x.get('record') if x.get('k') == 'var' else x.get('trecord')
+    if rec is None and t.startswith('struct '):
+        rec = t[7:].strip()
+    return rec if rec in prog.records else None
+
+
+def _local_struct_lvalue(x):
+    """x is a local struct variable or a member path of one without arrows"""
+    x = _unwrap(x)
+    while isinstance(x, dict) and x.get('k') == 'member' and not x.get('arrow'):
+        x = x['base']
+    return isinstance(x, dict) and x.get('k') == 'var' and x.get('vk') in ('local',)
+
+
+def _struct_copies(prog, g):
+    """Whole-struct operations on local structs are written out member by member, so that structs returned by value
+    (`hit = find(..)`: `$ret = hit@1; hit = $ret`), copied or initialised with a list can be split by _sroa:
+      * `decl s = { .a = x, .b = y }`  ->  `decl s; s.a = x; s.b = y` (members not named: 0);
+      * `s = t` (both local structs of the same record)  ->  `s.f = t.f` for every member f.
+    True if anything changed."""
+    def member(base, fl, rec):
+        m = {'k': 'member', 'arrow': False, 'base': base, 'field': fl['name'], 'record': rec, 'type': fl.get('type', ''),
+             'tptr': bool(fl.get('ptr'))}
+        if fl.get('record'):
+            m['trecord'] = fl['record']
+        return m
+    changed = False
+    for blk in g.blocks.values():
+        evs = []
+        for e in blk.events:
+            if e['ev'] == 'decl' and isinstance(e.get('init'), dict) and e['init'].get('k') == 'init' and not e.get('ptr') \
+                    and e.get('record') in prog.records and not e.get('static') and 'bound' not in e \
+                    and isinstance(e['init'].get('fields'), dict) and not prog.records[e['record']].get('union'):
+                rec = e['record']
+                evs.append({k: v for k, v in e.items() if k != 'init'})
+                base = {'k': 'var', 'name': e['name'], 'vk': 'local', 'type': e.get('type'), 'record': rec, 'ptr': False}
+                for fl in prog.records[rec].get('fields', []):
+                    v = e['init']['fields'].get(fl['name'], {'k': 'int', 'v': 0})
+                    evs.append({'ev': 'store', 'op': '=', 'lhs': member(base, fl, rec), 'rhs': v, 'loc': e.get('loc'),
+                                'chain': e.get('chain', []), 'fn': e.get('fn'), 'from_decl': True})
+                changed = True
+                continue
+            if e['ev'] == 'store' and e.get('op') == '=' and 'rhs' in e:
+                l, r = _unwrap(e['lhs']), _unwrap(e['rhs'])
+                rec = _struct_record(prog, l) if isinstance(l, dict) and l.get('k') in ('var', 'member') else None
+                if rec and _local_struct_lvalue(l) and _local_struct_lvalue(r) and _struct_record(prog, r) == rec \
+                        and not prog.records[rec].get('union'):
+                    for fl in prog.records[rec].get('fields', []):
+                        evs.append(dict(e, lhs=member(l, fl, rec), rhs={'k': 'load', 'e': member(r, fl, rec)}))
+                    changed = True
+                    continue
+            evs.append(e)
+        blk.events = evs
+    return changed
+
+
+def strip_loads(x):
+    while isinstance(x, dict) and x.get('k') == 'load' and 'e' in x:
+        x = x['e']
+    return x
+
+
+def _vars_of(x):
+    return {y['name'] for y in walk(x) if y.get('k') == 'var' and y.get('vk') in ('local', 'param')}
+
+
+def _address_forming(x):
+    """'addr': the value is the address of an lvalue (`&p->f`, `&iv_container_of(an, ..)->wd`, `&v`) or a conditional
+    expression of such; 'arith': it is computed by pointer arithmetic; None otherwise (a copy of a variable, a value read
+    from memory, a pointer to a whole object obtained with iv_container_of)"""
+    x = _unwrap(x)
+    if not isinstance(x, dict):
+        return None
+    if x.get('k') == 'addr':
+        return 'addr'
+    if x.get('k') == 'bin' and x.get('op') in ('+', '-'):
+        return 'arith'
+    if x.get('k') == 'cond':
+        a, b = _address_forming(x['a']), _address_forming(x['b'])
+        return a if a == b else None
+    return None
+
+
+def _object_pointer(v):
+    """the variable is a pointer to a struct object (the analyses follow those by variable); pointers to scalars, to
+    pointers, char * / void * are addresses of *places*"""
+    t = Walk.unqual(v.get('type') or '')
+    if not t.endswith('*'):
+        return False
+    el = ' '.join(w for w in t[:-1].split() if w not in ('const', 'volatile'))
+    return el.startswith('struct ') or el.startswith('union ') or bool(v.get('record') and v.get('ptr') and not el.endswith('*') and el not in ('void', 'char'))
+
+
+def _addr_of_local(x):
+    """`&v` for a local variable v (a context struct handed on to a nested helper)"""
+    x = _unwrap(x)
+    return isinstance(x, dict) and x.get('k') == 'addr' and isinstance(x.get('e'), dict) and x['e'].get('k') == 'var' \
+        and x['e'].get('vk') == 'local'
+
+
+def _forward_addresses(g):
+    """Forward substitution of address temporaries: a local T (never address-taken) that is assigned an address
+    expression E (`key = &iv_container_of(an, ..)->wd`, `$ret = &this->term`, `slot = (char *)an + off`) is replaced by E
+    at the reads that E's definition reaches unchanged: on every path from the definition to the read neither T nor a
+    variable of E is assigned, and, if E reads memory, no store through memory and no call happens in between.  This is
+    what an accessor helper returning the address of a member becomes after inlining.  True if anything changed."""
+    taken, defs = set(), {}
+    for e in g.events():
+        for x in walk(e):
+            if x.get('k') == 'addr':
+                v = _unwrap(x.get('e'))
+                if isinstance(v, dict) and v.get('k') == 'var':
+                    taken.add(v['name'])
+    for blk in g.blocks.values():
+        for e in blk.events:
+            if e['ev'] == 'store' and e.get('op') == '=' and 'rhs' in e:
+                l = _unwrap(e['lhs'])
+                if isinstance(l, dict) and l.get('k') == 'var' and l.get('vk') == 'local' and l['name'] not in taken \
+                        and (not _object_pointer(l) or _addr_of_local(e['rhs'])) \
+                        and _address_forming(e['rhs']) and _pure_path(e['rhs']) and l['name'] not in _vars_of(e['rhs']):
+                    defs[id(e)] = (l['name'], e['rhs'], frozenset(_vars_of(e['rhs'])),
+                                   any(y.get('k') == 'load' and (strip_loads(y).get('k') in ('member', 'deref', 'index') or
+                                                                 (strip_loads(y).get('k') == 'var' and strip_loads(y).get('vk') not in ('local', 'param', 'func')))
+                                       for y in walk(e['rhs'])))
+    # a temporary computed by pointer arithmetic is forwarded only if it exists to be dereferenced (as another type):
+    # every read of it is the operand of `*`; cursors and limits that are compared or advanced keep their variable
+    arith = {d[0] for d in defs.values() if _address_forming(d[1]) == 'arith'}
+    if arith:
+        occ = {n: 0 for n in arith}
+        der = {n: 0 for n in arith}
+
+        def count(x):
+            if x.get('k') == 'var' and x.get('name') in occ:
+                occ[x['name']] += 1
+            if x.get('k') == 'deref':
+                v = _unwrap(x.get('e'))
+                if isinstance(v, dict) and v.get('k') == 'var' and v.get('name') in der:
+                    der[v['name']] += 1
+            return x
+        for blk in g.blocks.values():
+            for e in blk.events:
+                if e['ev'] in ('enter', 'leave', 'decl') or (e['ev'] == 'load' and isinstance(_unwrap(e.get('e')), dict)
+                                                              and _unwrap(e['e']).get('k') == 'var'):
+                    continue
+                for key in _EXPR_KEYS:
+                    if key in e and isinstance(e[key], (dict, list)):
+                        if key == 'lhs' and e['ev'] == 'store' and isinstance(_unwrap(e[key]), dict) and _unwrap(e[key]).get('k') == 'var':
+                            continue
+                        _map_expr(e[key], count)
+            if blk.term and isinstance(blk.term.get('cond'), dict):
+                _map_expr(blk.term['cond'], count)
+        keep = {n for n in arith if occ[n] and occ[n] == der[n]}
+        defs = {i: d for i, d in defs.items() if d[0] not in arith or d[0] in keep}
+    if not defs:
+        return False
+    TOP = None
+
+    def transfer(e, S):
+        if S is TOP:
+            return S
+        if e['ev'] == 'store':
+            l = _unwrap(e['lhs'])
+            if isinstance(l, dict) and l.get('k') == 'var':
+                S = frozenset(d for d in S if d[0] != l['name'] and l['name'] not in d[2])
+                if id(e) in defs:
+                    n, _, vs, rm = defs[id(e)]
+                    S = S | {(n, id(e), vs, rm)}
+            else:
+                S = frozenset(d for d in S if not d[3])
+        elif e['ev'] == 'decl':
+            S = frozenset(d for d in S if d[0] != e['name'] and e['name'] not in d[2])
+        elif e['ev'] == 'call':
+            S = frozenset(d for d in S if not d[3])
+        return S
+
+    def join(a, b):
+        if a is TOP:
+            return b
+        if b is TOP:
+            return a
+        return a & b
+    _, ev_in = forward(g, frozenset(), transfer, join, top=TOP)
+    by_id = {i: d for i, d in defs.items()}
+    changed = False
+
+    def subst_reads(x, avail):
+        def fn(n):
+            if n.get('k') == 'load' and isinstance(n.get('e'), dict) and n['e'].get('k') == 'var' and n['e'].get('name') in avail:
+                return copy.deepcopy(avail[n['e']['name']])
+            return n
+        return _map_expr(x, fn)
+    for b, blk in g.blocks.items():
+        S = None
+        for i, e in enumerate(blk.events):
+            S = ev_in.get((b, i))
+            if not S:
+                continue
+            names = {}
+            for d in S:
+                names.setdefault(d[0], []).append(d[1])
+            avail = {n: by_id[ids[0]][1] for n, ids in names.items() if len(ids) == 1}
+            if not avail or e['ev'] in ('enter', 'leave', 'decl'):
+                continue
+            upd = {}
+            for key in _EXPR_KEYS:
+                if key in e and isinstance(e[key], (dict, list)):
+                    if key == 'lhs' and isinstance(_unwrap(e[key]), dict) and _unwrap(e[key]).get('k') == 'var':
+                        continue
+                    if e['ev'] == 'load' and isinstance(_unwrap(e[key]), dict) and _unwrap(e[key]).get('k') == 'var':
+                        continue
+                    v2 = subst_reads(e[key], avail)
+                    if v2 is not e[key]:
+                        upd[key] = v2
+            if upd:
+                blk.events[i] = dict(e, **upd)
+                changed = True
+        if blk.term and isinstance(blk.term.get('cond'), dict):
+            S = ev_in.get((b, len(blk.events)))
+            if S:
+                names = {}
+                for d in S:
+                    names.setdefault(d[0], []).append(d[1])
+                avail = {n: by_id[ids[0]][1] for n, ids in names.items() if len(ids) == 1}
+                if avail:
+                    c2 = subst_reads(blk.term['cond'], avail)
+                    if c2 is not blk.term['cond']:
+                        blk.term = dict(blk.term, cond=c2)
+                        changed = True
+    return changed
+
+
+def _address_taken(g):
+    taken = set()
+    for e in g.events():
+        if e['ev'] == 'enter':
+            continue
+        for x in walk(e):
+            if x.get('k') == 'addr':
+                v = _unwrap(x.get('e'))
+                if isinstance(v, dict) and v.get('k') == 'var':
+                    taken.add(v['name'])
+    return taken
+
+
+def _partition_counters(g, maxvals=6, max_blocks=600):
+    """Trace partitioning on a small loop counter: a local integer that is only ever assigned constants and stepped by
+    constants (`for (i = 0; i < 2; i++)` over a constant table) is eliminated like a flag: every block in the live range
+    of the counter is duplicated per value, reads of the counter become that constant, and the loop test folds.  The
+    loop over the table thereby becomes the straight-line sequence of its (at most `maxvals`) iterations.  Purely a CFG
+    refinement; abandoned when the counter takes more values.  True if anything changed."""
+    taken = _address_taken(g)
+    stores, bad = {}, set()
+    for e in g.events():
+        if e['ev'] == 'store':
+            l = _unwrap(e['lhs'])
+            if isinstance(l, dict) and l.get('k') == 'var':
+                n = l['name']
+                t = (l.get('type') or '')
+                if l.get('vk') != 'local' or '*' in t or '[' in t or t.startswith('struct'):
+                    bad.add(n)
+                    continue
+                op = e.get('op')
+                c = const_of(e['rhs']) if 'rhs' in e and isinstance(e['rhs'], dict) else None
+                if (op == '=' and c is not None) or op in ('++', '--') or (op in ('+=', '-=') and c is not None):
+                    stores.setdefault(n, []).append(e)
+                else:
+                    bad.add(n)
+    cands = []
+    for n, es in stores.items():
+        if n in bad or n in taken:
+            continue
+        if not any(e.get('op') == '=' for e in es) or not any(e.get('op') != '=' for e in es):
+            continue
+        tested = False
+        for blk in g.blocks.values():
+            c = blk.term.get('cond') if blk.term else None
+            if isinstance(c, dict) and len(blk.succ) == 2:
+                for y in walk(c):
+                    if y.get('k') == 'bin' and y.get('op') in CMPOPS:
+                        for a, b in ((y['l'], y['r']), (y['r'], y['l'])):
+                            va = strip(a)
+                            if isinstance(va, dict) and va.get('k') == 'var' and va.get('name') == n and const_of(b) is not None:
+                                tested = True
+        if tested:
+            cands.append(n)
+    for name in sorted(cands):
+        if _partition_counter(g, name, maxvals, max_blocks):
+            return True
+    return False
+
+
+def _partition_counter(g, name, maxvals, max_blocks):
+    def reads(x):
+        return any(y.get('k') == 'var' and y.get('name') == name for y in walk(x)) if isinstance(x, (dict,)) else \
+            any(reads(a) for a in x if isinstance(a, dict)) if isinstance(x, list) else False
+
+    def is_store(e):
+        return e['ev'] == 'store' and isinstance(_unwrap(e['lhs']), dict) and _unwrap(e['lhs']).get('k') == 'var' \
+            and _unwrap(e['lhs']).get('name') == name
+    # liveness of the counter at block entry
+    use, kill = {}, {}
+    for b, blk in g.blocks.items():
+        u = k = False
+        for e in blk.events:
+            if e['ev'] in ('enter', 'leave'):
+                continue
+            if is_store(e):
+                if e.get('op') != '=' and not k:
+                    u = True
+                if e.get('op') == '=':
+                    k = True
+                continue
+            if e['ev'] == 'decl' and e.get('name') == name:
+                k = True
+                continue
+            if not k and any(reads(e[key]) for key in _EXPR_KEYS if key in e and isinstance(e[key], (dict, list))):
+                u = True
+        if not k and blk.term and isinstance(blk.term.get('cond'), dict) and reads(blk.term['cond']):
+            u = True
+        use[b], kill[b] = u, k
+    live = {b: use[b] for b in g.blocks}
+    ch = True
+    while ch:
+        ch = False
+        for b, blk in g.blocks.items():
+            if not live[b] and not kill[b] and any(s is not None and live.get(s) for s in blk.succ):
+                live[b] = True
+                ch = True
+
+    def step(e, val):
+        if is_store(e):
+            op = e.get('op')
+            c = const_of(e['rhs']) if 'rhs' in e and isinstance(e['rhs'], dict) else None
+            if op == '=':
+                return c
+            if val is None:
+                return None
+            return {'++': val + 1, '--': val - 1, '+=': val + (c or 0), '-=': val - (c or 0)}.get(op)
+        if e['ev'] == 'decl' and e.get('name') == name:
+            return None
+        return val
+    def sub(x, val):
+        if val is None:
+            return x
+
+        def fn(n):
+            if n.get('k') == 'load' and isinstance(n.get('e'), dict) and n['e'].get('k') == 'var' and n['e'].get('name') == name:
+                return {'k': 'int', 'v': val, 'type': n['e'].get('type', 'int')}
+            if n.get('k') == 'var' and n.get('name') == name:
+                return {'k': 'int', 'v': val, 'type': n.get('type', 'int')}
+            return n
+        return fold(_map_expr(x, fn))
+
+    def taken(blk, v):
+        """successors that can be taken when the counter is v at the end of the block"""
+        t = blk.term
+        if v is not None and t and isinstance(t.get('cond'), dict) and len(blk.succ) == 2 \
+                and t.get('cls') not in ('SwitchStmt', 'MethodDispatch') and reads(t['cond']):
+            c = const_of(sub(t['cond'], v))
+            if c is not None:
+                return [blk.succ[0] if c else blk.succ[1]]
+        return list(blk.succ)
+    # exploration over (block, value at entry)
+    seen = {}
+    order = []
+    todo = [(g.entry, None)]
+    values = set()
+    while todo:
+        key = todo.pop()
+        if key in seen:
+            continue
+        b, val = key
+        seen[key] = None
+        order.append(key)
+        if val is not None:
+            values.add(val)
+            if len(values) > maxvals or len(seen) > max_blocks:
+                if os.environ.get('H20_DEBUG'): print('counter', name, 'abandoned', sorted(values), len(seen))
+                return False
+        v = val
+        for e in g.blocks[b].events:
+            v = step(e, v)
+        for s_ in taken(g.blocks[b], v):
+            if s_ is None:
+                continue
+            todo.append((s_, v if live.get(s_) else None))
+    if not values:
+        return False
+    # build
+    nid = max(g.blocks) + 1
+    ids = {}
+    for key in order:
+        if key[1] is None:
+            ids[key] = key[0]
+        else:
+            ids[key] = nid
+            nid += 1
+
+    newblocks = {}
+    for key in order:
+        b, val = key
+        blk = g.blocks[b]
+        v = val
+        evs = []
+        for e in blk.events:
+            if is_store(e) or e['ev'] in ('enter', 'leave', 'decl') or v is None:
+                e2 = dict(e) if val is not None else e
+            else:
+                upd = {}
+                for k2 in _EXPR_KEYS:
+                    if k2 in e and isinstance(e[k2], (dict, list)):
+                        upd[k2] = sub(e[k2], v)
+                e2 = dict(e, **upd)
+            evs.append(e2)
+            v = step(e, v)
+        term = dict(blk.term) if blk.term else None
+        if term and isinstance(term.get('cond'), dict) and v is not None:
+            term['cond'] = sub(term['cond'], v)
+        tk = taken(blk, v)
+        succ = [(ids[(s_, v if live.get(s_) else None)] if s_ is not None else None) for s_ in tk]
+        if len(tk) != len(blk.succ) and term:
+            term = {k2: x for k2, x in term.items() if k2 != 'cond'}
+            term.update(cls='Pruned', pruned='counter %s = %s' % (name, v))
+        nb = Block(ids[key], evs, succ, term, blk.noreturn)
+        newblocks[ids[key]] = nb
+    if g.exit not in newblocks:
+        newblocks[g.exit] = g.blocks[g.exit]
+    g.blocks = newblocks
+    _renumber(g)
+    return True
+
+
+def _sroa_arrays(g):
+    """A local array of scalars that is only ever accessed at constant indices (`masks[0] = ev->mask; masks[1] = w->mask;
+    ... masks[0] & BIT` once a table-driven loop is unrolled) is split into one local per element, named `masks[0]`.
+    True if anything changed."""
+    arrs = {}
+    for e in g.events():
+        if e['ev'] == 'decl' and 'bound' in e and not e.get('static') and isinstance(e.get('bound'), int) and e['bound'] <= 8 \
+                and 'init' not in e and (e.get('type') or '').count('[') == 1 and not e.get('record'):
+            arrs[e['name']] = e
+    if not arrs:
+        return False
+    occ = {n: 0 for n in arrs}
+    good = {n: 0 for n in arrs}
+
+    def count(x):
+        if x.get('k') == 'var' and x.get('name') in occ:
+            occ[x['name']] += 1
+        elif x.get('k') == 'index' and 'bound' in x:
+            b = x.get('base')
+            if isinstance(b, dict) and b.get('k') == 'var' and b.get('name') in good and const_of(x.get('idx')) is not None \
+                    and 0 <= const_of(x['idx']) < arrs[b['name']]['bound']:
+                good[b['name']] += 1
+        return x
+    for blk in g.blocks.values():
+        for e in blk.events:
+            if e['ev'] in ('enter', 'decl'):
+                continue
+            for key in _EXPR_KEYS:
+                if key in e and isinstance(e[key], (dict, list)):
+                    _map_expr(e[key], count)
+        if blk.term and isinstance(blk.term.get('cond'), dict):
+            _map_expr(blk.term['cond'], count)
+    split = {n for n in arrs if occ[n] and occ[n] == good[n]}
+    if not split:
+        return False
+
+    def el_type(n):
+        return (arrs[n].get('type') or '').split('[')[0].strip()
+
+    def rw(x):
+        if x.get('k') == 'index' and 'bound' in x:
+            b = x.get('base')
+            if isinstance(b, dict) and b.get('k') == 'var' and b.get('name') in split:
+                return {'k': 'var', 'name': '%s[%d]' % (b['name'], const_of(x['idx'])), 'vk': 'local', 'type': el_type(b['name']),
+                        'ptr': '*' in el_type(b['name'])}
+        return x
+    # maximal accesses first (top-down), like member chains
+    def top_down(x):
+        if isinstance(x, list):
+            return [top_down(y) for y in x]
+        if not isinstance(x, dict) or 'k' not in x:
+            return x
+        y = rw(x)
+        if y is not x:
+            return y
+        out = None
+        for key, val in x.items():
+            if isinstance(val, (dict, list)) and not key.startswith('_') and key != 'sizeof':
+                v2 = top_down(val)
+                if v2 != val:
+                    if out is None:
+                        out = dict(x)
+                    out[key] = v2
+        return out if out is not None else x
+    for blk in g.blocks.values():
+        evs = []
+        for e in blk.events:
+            if e['ev'] == 'decl' and e.get('name') in split:
+                for i in range(e['bound']):
+                    d = {k: v for k, v in e.items() if k not in ('bound', 'type', 'name')}
+                    d.update(name='%s[%d]' % (e['name'], i), type=el_type(e['name']), ptr='*' in el_type(e['name']))
+                    evs.append(d)
+                continue
+            upd = {}
+            for key in _EXPR_KEYS:
+                if key in e and isinstance(e[key], (dict, list)):
+                    v2 = top_down(e[key])
+                    if v2 != e[key]:
+                        upd[key] = v2
+            evs.append(dict(e, **upd) if upd else e)
+        blk.events = evs
+        if blk.term and isinstance(blk.term.get('cond'), dict):
+            c2 = top_down(blk.term['cond'])
+            if c2 != blk.term['cond']:
+                blk.term = dict(blk.term, cond=c2)
+    return True
+
+
+def _coalesce_int_copies(g):
+    """Copy chains of integer locals: a local B (not a pointer, never address-taken) whose only definition is `B = A`,
+    A another such local that is not assigned between the copy and any read of B, is A: its reads are replaced by reads
+    of A and the copy is dropped.  This is what a flag handed back through a struct returned by value, a `$ret`
+    temporary or an out-parameter becomes (`hit.drop = $ret.drop = hit@2.drop`); once the chain is collapsed the tested
+    variable is the one the boolean expression was assigned to and flag partitioning applies.  True if anything changed."""
+    taken = set()
+    for e in g.events():
+        for x in walk(e):
+            if x.get('k') == 'addr':
+                v = _unwrap(x.get('e'))
+                if isinstance(v, dict) and v.get('k') == 'var':
+                    taken.add(v['name'])
+
+    def is_int(v):
+        t = (v.get('type') or '').strip()
+        return bool(t) and not v.get('ptr') and '*' not in t and '[' not in t and not t.startswith('struct ') and not t.startswith('union ')
+    stores = {}
+    for e in g.events():
+        if e['ev'] == 'store':
+            l = _unwrap(e['lhs'])
+            if isinstance(l, dict) and l.get('k') == 'var':
+                stores.setdefault(l['name'], []).append(e)
+    pairs = {}
+    for B, es in stores.items():
+        if B in taken or len({e.get('loc') for e in es}) != 1:
+            continue
+        e = es[0]
+        l = _unwrap(e['lhs'])
+        r = strip_loads(e['rhs']) if e.get('op') == '=' and 'rhs' in e and isinstance(e['rhs'], dict) and e['rhs'].get('k') == 'load' else None
+        if l.get('vk') == 'local' and is_int(l) and isinstance(r, dict) and r.get('k') == 'var' and r.get('vk') == 'local' \
+                and is_int(r) and r['name'] not in taken and r['name'] != B and all(x.get('op') == '=' and strip_loads(x.get('rhs')) is not None
+                                                                                    and isinstance(strip_loads(x['rhs']), dict)
+                                                                                    and strip_loads(x['rhs']).get('name') == r['name'] for x in es):
+            pairs[B] = r
+    if not pairs:
+        return False
+    # one at a time (chains are collapsed by the fixpoint iteration of scalarize)
+    for B, A in sorted(pairs.items()):
+        An = A['name']
+
+        def transfer(e, S):
+            if e['ev'] == 'store':
+                l = _unwrap(e['lhs'])
+                if isinstance(l, dict) and l.get('k') == 'var':
+                    if l['name'] == B:
+                        return True
+                    if l['name'] == An:
+                        return False
+            elif e['ev'] == 'decl' and e.get('name') in (B, An):
+                return False
+            return S
+        _, ev_in = forward(g, False, transfer, lambda a, b: a and b)
+        ok = True
+
+        def reads_B(x):
+            return any(y.get('k') == 'var' and y.get('name') == B for y in walk(x))
+        for b, blk in g.blocks.items():
+            for i, e in enumerate(blk.events):
+                if e['ev'] in ('decl', 'enter', 'leave'):
+                    continue
+                for key in _EXPR_KEYS:
+                    if key in e and isinstance(e[key], (dict, list)):
+                        if key == 'lhs' and isinstance(_unwrap(e[key]), dict) and _unwrap(e[key]).get('k') == 'var':
+                            continue
+                        xs = e[key] if isinstance(e[key], list) else [e[key]]
+                        if any(isinstance(x, dict) and reads_B(x) for x in xs) and not ev_in.get((b, i), False):
+                            ok = False
+            if blk.term and isinstance(blk.term.get('cond'), dict) and reads_B(blk.term['cond']) \
+                    and not ev_in.get((b, len(blk.events)), False):
+                ok = False
+        if not ok:
+            continue
+
+        def rw(n):
+            if n.get('k') == 'var' and n.get('name') == B:
+                return dict(A)
+            return n
+        for blk in g.blocks.values():
+            evs = []
+            for e in blk.events:
+                if e['ev'] == 'store' and isinstance(_unwrap(e['lhs']), dict) and _unwrap(e['lhs']).get('k') == 'var' \
+                        and _unwrap(e['lhs']).get('name') == B:
+                    continue
+                if e['ev'] == 'decl' and e.get('name') == B:
+                    continue
+                upd = {}
+                for key in _EXPR_KEYS:
+                    if key in e and isinstance(e[key], (dict, list)):
+                        v2 = _map_expr(e[key], rw)
+                        if v2 is not e[key]:
+                            upd[key] = v2
+                evs.append(dict(e, **upd) if upd else e)
+            blk.events = evs
+            if blk.term and isinstance(blk.term.get('cond'), dict):
+                c2 = _map_expr(blk.term['cond'], rw)
+                if c2 is not blk.term['cond']:
+                    blk.term = dict(blk.term, cond=c2)
+        return True
+    return False
+
+
+def _shadow_cursors(g):
+    """Pointer-to-pointer cursors: a local L that is only ever assigned addresses of pointer lvalues
+    (`link = &tree->root; ... link = c ? &w->an.left : &w->an.right`) and only ever read as `*L` is replaced by a
+    local `L@deref` holding the pointer stored there (`L@deref = tree->root; ... L@deref = c ? w->an.left : w->an.right`),
+    provided nothing is stored through memory and nothing is called between an assignment of L and a read of `*L`
+    (so that `*L` still has the value it had at the assignment).  True if anything changed."""
+    taken = set()
+    for e in g.events():
+        for x in walk(e):
+            if x.get('k') == 'addr':
+                v = _unwrap(x.get('e'))
+                if isinstance(v, dict) and v.get('k') == 'var':
+                    taken.add(v['name'])
+
+    def addr_tree(x):
+        """the expression with every `&lv` leaf replaced by a read of lv, or None"""
+        x0 = _unwrap(x)
+        if not isinstance(x0, dict):
+            return None
+        if x0.get('k') == 'addr' and isinstance(x0.get('e'), dict) and x0['e'].get('k') in ('member', 'var', 'index', 'deref'):
+            return {'k': 'load', 'e': x0['e']}
+        if x0.get('k') == 'cond':
+            a, b = addr_tree(x0['a']), addr_tree(x0['b'])
+            return dict(x0, a=a, b=b) if a is not None and b is not None else None
+        return None
+    stores, bad = {}, set()
+    for e in g.events():
+        if e['ev'] == 'store':
+            l = _unwrap(e['lhs'])
+            if isinstance(l, dict) and l.get('k') == 'var' and l.get('vk') == 'local':
+                t = addr_tree(e['rhs']) if e.get('op') == '=' and 'rhs' in e else None
+                if t is None or not _pure_path(e['rhs']):
+                    bad.add(l['name'])
+                else:
+                    stores.setdefault(l['name'], []).append(e)
+    cands = {n for n in stores if n not in bad and n not in taken}
+    if not cands:
+        return False
+    # every other occurrence must be a read of *L
+    derefs = {n: 0 for n in cands}
+    occ = {n: 0 for n in cands}
+
+    def count(x):
+        if x.get('k') == 'var' and x.get('name') in occ:
+            occ[x['name']] += 1
+        if x.get('k') == 'deref':
+            v = _unwrap(x.get('e'))
+            if isinstance(v, dict) and v.get('k') == 'var' and v.get('name') in derefs:
+                derefs[v['name']] += 1
+        return x
+    for blk in g.blocks.values():
+        for e in blk.events:
+            if e['ev'] in ('enter', 'leave', 'decl'):
+                continue
+            if e['ev'] == 'load' and isinstance(_unwrap(e.get('e')), dict) and _unwrap(e['e']).get('k') == 'var':
+                continue
+            for key in _EXPR_KEYS:
+                if key in e and isinstance(e[key], (dict, list)):
+                    if key == 'lhs' and e['ev'] == 'store' and isinstance(_unwrap(e[key]), dict) and _unwrap(e[key]).get('k') == 'var':
+                        continue
+                    if key == 'lhs' and e['ev'] == 'store' and isinstance(_unwrap(e[key]), dict) and _unwrap(e[key]).get('k') == 'deref':
+                        v = _unwrap(_unwrap(e[key]).get('e'))
+                        if isinstance(v, dict) and v.get('k') == 'var' and v.get('name') in cands:
+                            bad.add(v['name'])       # a store through the cursor
+                    _map_expr(e[key], count)
+        if blk.term and isinstance(blk.term.get('cond'), dict):
+            _map_expr(blk.term['cond'], count)
+    cands = {n for n in cands if n not in bad and occ[n] == derefs[n] and derefs[n] > 0}
+    if not cands:
+        return False
+    # freshness of *L at its reads
+    def transfer(e, S):
+        if e['ev'] == 'store':
+            l = _unwrap(e['lhs'])
+            if isinstance(l, dict) and l.get('k') == 'var':
+                if l['name'] in cands:
+                    return S | {l['name']}
+                return S
+            return frozenset()
+        if e['ev'] == 'call':
+            return frozenset()
+        return S
+    _, ev_in = forward(g, frozenset(), transfer, lambda a, b: a & b)
+
+    def stale_reads(x, S, out):
+        for y in walk(x):
+            if y.get('k') == 'deref':
+                v = _unwrap(y.get('e'))
+                if isinstance(v, dict) and v.get('k') == 'var' and v.get('name') in cands and v['name'] not in S:
+                    out.add(v['name'])
+    notfresh = set()
+    for b, blk in g.blocks.items():
+        for i, e in enumerate(blk.events):
+            S = ev_in.get((b, i), frozenset())
+            for key in _EXPR_KEYS:
+                if key in e and isinstance(e[key], dict):
+                    stale_reads(e[key], S, notfresh)
+                elif key in e and isinstance(e[key], list):
+                    for a in e[key]:
+                        if isinstance(a, dict):
+                            stale_reads(a, S, notfresh)
+        if blk.term and isinstance(blk.term.get('cond'), dict):
+            stale_reads(blk.term['cond'], ev_in.get((b, len(blk.events)), frozenset()), notfresh)
+    cands -= notfresh
+    if not cands:
+        return False
+
+    def shadow(v, like):
+        t = (like.get('type') or '') if isinstance(like, dict) else ''
+        out = {'k': 'var', 'name': v + '@deref', 'vk': 'local', 'type': t, 'ptr': True}
+        if isinstance(like, dict) and like.get('trecord'):
+            out['record'] = like['trecord']
+        return out
+    like = {}
+    for n in cands:
+        t = addr_tree(stores[n][0]['rhs'])
+        while isinstance(t, dict) and t.get('k') == 'cond':
+            t = t['a']
+        like[n] = t['e'] if isinstance(t, dict) else {}
+
+    def rw(x):
+        if x.get('k') == 'deref':
+            v = _unwrap(x.get('e'))
+            if isinstance(v, dict) and v.get('k') == 'var' and v.get('name') in cands:
+                return shadow(v['name'], like[v['name']])
+        return x
+    for blk in g.blocks.values():
+        evs = []
+        for e in blk.events:
+            if e['ev'] == 'decl' and e.get('name') in cands:
+                sv = shadow(e['name'], like[e['name']])
+                evs.append(dict(e, name=sv['name'], type=sv['type'], ptr=True, record=sv.get('record')))
+                continue
+            if e['ev'] == 'load' and isinstance(_unwrap(e.get('e')), dict) and _unwrap(e['e']).get('k') == 'var' \
+                    and _unwrap(e['e']).get('name') in cands:
+                continue
+            if e['ev'] == 'store':
+                l = _unwrap(e['lhs'])
+                if isinstance(l, dict) and l.get('k') == 'var' and l.get('name') in cands:
+                    evs.append(dict(e, lhs=shadow(l['name'], like[l['name']]), rhs=_map_expr(addr_tree(e['rhs']), rw)))
+                    continue
+            upd = {}
+            for key in _EXPR_KEYS:
+                if key in e and isinstance(e[key], (dict, list)):
+                    v2 = _map_expr(e[key], rw)
+                    if v2 is not e[key]:
+                        upd[key] = v2
+            evs.append(dict(e, **upd) if upd else e)
+        blk.events = evs
+        if blk.term and isinstance(blk.term.get('cond'), dict):
+            c2 = _map_expr(blk.term['cond'], rw)
+            if c2 is not blk.term['cond']:
+                blk.term = dict(blk.term, cond=c2)
+    return True
+
+
+def _renumber(g):
+    for b in g.blocks.values():
+        for i, e in enumerate(b.events):
+            e['_b'] = b.id
+            e['_i'] = i
+    g._preds = None
+
+
+def _rewrite_addr(prog, g):
+    """Expression identities:
+      * `*&x` is x, `(&x)->f` is `x.f`, `(&x)[0]` is x (what `*out = v` / `ctx->f` of a helper become once the inliner has
+        substituted the argument `&x` for the parameter);
+      * `*(T *)((char *)p + offsetof(R, f))` is `p->f` for p a pointer to record R;
+      * an element of a const-qualified table of integers at a constant index is that integer; at a computed index of a
+        table of at most 4 elements it is the conditional expression over the elements.
+    True if anything changed."""
+    def field_at(rec, off):
+        for fl in prog.records.get(rec, {}).get('fields', []):
+            if fl.get('offset') == off and not prog.records.get(rec, {}).get('union'):
+                return fl
+        return None
+
+    def member_at(p, offs):
+        """`p->f` for the member f of *p at the constant byte offset `offs` (a tree of conditional expressions over
+        constants gives the same tree over members); None if some offset is not the start of a member"""
+        o = _unwrap(offs)
+        if isinstance(o, dict) and o.get('k') == 'cond':
+            a, b = member_at(p, o['a']), member_at(p, o['b'])
+            return dict(o, a=a, b=b) if a is not None and b is not None else None
+        c = const_of(o) if isinstance(o, dict) else None
+        fl = field_at(p['record'], c) if c is not None else None
+        if fl is None:
+            return None
+        m = {'k': 'member', 'arrow': True, 'base': {'k': 'load', 'e': p}, 'field': fl['name'], 'record': p['record'],
+             'type': fl.get('type', ''), 'tptr': bool(fl.get('ptr'))}
+        if fl.get('record'):
+            m['trecord'] = fl['record']
+        return m
+
+    static_inits = {e['name']: e for e in g.events() if e['ev'] == 'decl' and e.get('static') and isinstance(e.get('init'), dict)}
+
+    def table_init(var):
+        """initialiser of a const-qualified table (file-scope or static local) that nobody can write"""
+        t = var.get('type', '')
+        if 'const' not in t.split('[')[0].split('(')[0].split() and 'const' not in t.split('[')[0].split():
+            return None
+        if var.get('vk') == 'global':
+            cands = [gl for gl in prog.globals.values() if gl.get('name') == var['name'] and not gl.get('extern_decl')
+                     and isinstance(gl.get('init'), dict) and gl.get('type') == t]
+            return cands[0]['init'] if len(cands) == 1 else None
+        if var.get('vk') == 'staticlocal':
+            d = static_inits.get(var['name'])
+            return d['init'] if d is not None and d.get('type') == t else None
+        return None
+
+    def const_access(x):
+        """the value of an access path `T[i].f[j]...` into a constant table: the integer at constant indices; the
+        conditional expression over the alternatives (at most 8) where an index is computed; None if it is not a scalar
+        integer of such a table"""
+        steps = []
+        m = x
+        while isinstance(m, dict) and ((m.get('k') == 'index' and 'bound' in m) or (m.get('k') == 'member' and not m.get('arrow'))):
+            steps.append(('idx', m['idx'], m['bound']) if m['k'] == 'index' else ('fld', m['field']))
+            m = _unwrap(m['base']) if m['k'] == 'index' else m['base']
+        if not steps or not (isinstance(m, dict) and m.get('k') == 'var' and m.get('vk') in ('global', 'staticlocal')):
+            return None
+        init = table_init(m)
+        if init is None:
+            return None
+        steps.reverse()
+        budget = [8]
+
+        def descend(node, i):
+            if i == len(steps):
+                c = const_of(node) if isinstance(node, dict) and node.get('k') != 'init' else None
+                return {'k': 'int', 'v': c, 'type': x.get('type', 'int')} if c is not None else None
+            if not (isinstance(node, dict) and node.get('k') == 'init'):
+                return None
+            st = steps[i]
+            if st[0] == 'fld':
+                sub = (node.get('fields') or {}).get(st[1])
+                return descend(sub, i + 1) if sub is not None else None
+            elems = node.get('elems') or []
+            c = const_of(st[1]) if isinstance(st[1], dict) else None
+            if c is not None:
+                return descend(elems[c], i + 1) if 0 <= c < len(elems) else None
+            if not (isinstance(st[1], dict) and _pure_path(st[1])) or not elems or len(elems) != st[2]:
+                return None
+            budget[0] -= len(elems)
+            if budget[0] < 0:
+                return None
+            alts = [descend(el, i + 1) for el in elems]
+            if any(a is None for a in alts):
+                return None
+            out = alts[-1]
+            for j in range(len(alts) - 2, -1, -1):
+                out = {'k': 'cond', 'c': {'k': 'bin', 'op': '==', 'l': st[1], 'r': {'k': 'int', 'v': j}, 'type': 'int'},
+                       'a': alts[j], 'b': out, 'type': x.get('type', 'int')}
+            return out
+        return descend(init, 0)
+
+    def const_function(fe):
+        """name of the function a member of a const-qualified file-scope struct / an element of a const table at a
+        constant index designates"""
+        fe = _unwrap(fe)
+        while isinstance(fe, dict) and fe.get('k') == 'deref':
+            fe = _unwrap(fe['e'])
+        steps = []
+        m = fe
+        while isinstance(m, dict) and ((m.get('k') == 'index' and 'bound' in m) or (m.get('k') == 'member' and not m.get('arrow'))):
+            steps.append(('idx', const_of(m['idx'])) if m['k'] == 'index' else ('fld', m['field']))
+            m = _unwrap(m['base']) if m['k'] == 'index' else m['base']
+        if not steps or not (isinstance(m, dict) and m.get('k') == 'var' and m.get('vk') in ('global', 'staticlocal')):
+            return None
+        node = table_init(m)
+        for st in reversed(steps):
+            if not (isinstance(node, dict) and node.get('k') == 'init'):
+                return None
+            if st[0] == 'fld':
+                node = (node.get('fields') or {}).get(st[1])
+            else:
+                els = node.get('elems') or []
+                node = els[st[1]] if st[1] is not None and 0 <= st[1] < len(els) else None
+        node = strip(node) if isinstance(node, dict) else None
+        if isinstance(node, dict) and node.get('k') == 'addr':
+            node = strip(node['e'])
+        return node['name'] if isinstance(node, dict) and node.get('k') == 'var' and node.get('vk') == 'func' else None
+
+    def addr_deref(x):
+        k = x.get('k')
+        if k == 'deref':
+            a = _unwrap(x.get('e'))
+            if isinstance(a, dict) and a.get('k') == 'addr':
+                return a['e']
+            # *(T *)((char *)p + offsetof(R, f))  is  p->f
+            if isinstance(a, dict) and a.get('k') == 'bin' and a.get('op') == '+':
+                for pl, ol in ((a['l'], a['r']), (a['r'], a['l'])):
+                    pv = _unwrap(pl)
+                    if isinstance(pv, dict) and pv.get('k') == 'var' and pv.get('ptr') and pv.get('record') in prog.records:
+                        inner = pl
+                        while isinstance(inner, dict) and inner.get('k') == 'load':
+                            inner = inner['e']
+                        to = inner.get('to', '') if isinstance(inner, dict) and inner.get('k') == 'cast' else ''
+                        if ' '.join(w for w in to.replace('*', ' * ').split() if w not in ('const', 'unsigned', 'signed')) not in ('char *', 'uint8_t *', 'void *'):
+                            continue        # typed pointer arithmetic scales the offset
+                        m = member_at(pv, ol)
+                        if m is not None:
+                            return m
+        elif k == 'member' and x.get('arrow'):
+            a = _unwrap(x.get('base'))
+            if isinstance(a, dict) and a.get('k') == 'addr':
+                return dict(x, arrow=False, base=a['e'])
+        elif k == 'call' and x.get('callee') == 'iv_avl_tree_empty' and len(x.get('args') or []) == 1:
+            # the header's definition: iv_avl_tree_empty(t) is t->root == NULL
+            t = x['args'][0]
+            a = _unwrap(t)
+            root = {'k': 'member', 'field': 'root', 'record': TREE, 'tptr': True, 'trecord': NODE, 'type': 'struct %s *' % NODE}
+            if isinstance(a, dict) and a.get('k') == 'addr':
+                root.update(arrow=False, base=a['e'])
+            else:
+                root.update(arrow=True, base=t)
+            return {'k': 'bin', 'op': '==', 'l': {'k': 'load', 'e': root}, 'r': {'k': 'null'}, 'type': 'int'}
+        elif k == 'index' and 'bound' not in x:
+            a = _unwrap(x.get('base'))
+            if isinstance(a, dict) and a.get('k') == 'addr' and const_of(x.get('idx')) == 0:
+                return a['e']
+        if k in ('index', 'member'):
+            v = const_access(x)
+            if v is not None:
+                return v
+        if k == 'call' and 'callee' not in x and isinstance(x.get('fnexpr'), dict):
+            f = const_function(x['fnexpr'])
+            if f is not None:
+                return dict({k2: v2 for k2, v2 in x.items() if k2 != 'fnexpr'}, callee=f)
+        return x
+    changed = _rewrite_cfg(g, addr_deref)
+    for blk in g.blocks.values():
+        for i, e in enumerate(blk.events):
+            if e['ev'] == 'call' and 'callee' not in e and isinstance(e.get('fnexpr'), dict):
+                f = const_function(e['fnexpr'])
+                if f is not None:
+                    blk.events[i] = dict({k2: v2 for k2, v2 in e.items() if k2 != 'fnexpr'}, callee=f)
+                    changed = True
+    return changed
+
+
+def _sroa(prog, g):
+    """Scalar replacement of aggregates: a local struct (not a union) that is only ever used through its members
+    (`wk.inst`, `&wk.inst`, `cb.fn(...)`; never as a whole: no `&wk` that survives, no struct copy) is split into one
+    local per member path, named `wk.inst`, carrying the member's type.  True if anything changed."""
+    changed = False
+    # candidates: local struct variables
+    cands = {}
+    for e in g.events():
+        if e['ev'] == 'decl' and not e.get('ptr') and e.get('record') and 'bound' not in e and '[' not in e.get('type', '') \
+                and not e.get('static') and not prog.records.get(e['record'], {}).get('union'):
+            cands[e['name']] = e
+    for e in g.events():
+        for key in _EXPR_KEYS:
+            if key in e and isinstance(e[key], (dict, list)):
+                for x in ([y for a in e[key] if isinstance(a, dict) for y in walk(a)] if isinstance(e[key], list) else walk(e[key])):
+                    if x.get('k') == 'var' and x.get('vk') == 'local' and str(x.get('name', '')).startswith('$ret') and x['name'] not in cands:
+                        rec = _struct_record(prog, x)
+                        if rec and not prog.records[rec].get('union'):
+                            cands[x['name']] = {'ev': 'decl', 'name': x['name'], 'record': rec, 'type': x.get('type')}
+    if cands and _tokenize_self_addresses(g, cands):
+        changed = True
+    if cands:
+        uses = {n: 0 for n in cands}
+        rooted = {n: 0 for n in cands}
+
+        def count(x):
+            if x.get('k') == 'var' and x.get('name') in uses:
+                uses[x['name']] += 1
+            elif x.get('k') == 'member' and not x.get('arrow'):
+                m = x.get('base')
+                if isinstance(m, dict) and m.get('k') == 'var' and m.get('name') in rooted:
+                    rooted[m['name']] += 1
+            return x
+        def inert(e):
+            """events that mention `&x` without using it: the record of an inlined call, the evaluation of an address"""
+            if e['ev'] == 'enter' or (e['ev'] == 'ret' and e.get('chain')):
+                return True         # (the return of an inlined helper: its value was stored into $retN just before)
+            if e['ev'] == 'load':
+                a = _unwrap(e.get('e'))
+                if isinstance(a, dict) and a.get('k') == 'var':
+                    return True
+                return isinstance(a, dict) and a.get('k') == 'addr' and isinstance(a.get('e'), dict) and a['e'].get('k') == 'var'
+            return False
+        for blk in g.blocks.values():
+            for e in blk.events:
+                if not inert(e):
+                    for key in _EXPR_KEYS:
+                        if key in e and isinstance(e[key], (dict, list)):
+                            _map_expr(e[key], count)
+            if blk.term and isinstance(blk.term.get('cond'), dict):
+                _map_expr(blk.term['cond'], count)
+        for p in g.params:
+            uses.pop(p['name'], None)
+        split = {n for n in uses if uses[n] and uses[n] == rooted[n]}
+        if split:
+            def chain_of(x):
+                names = []
+                m = x
+                while isinstance(m, dict) and m.get('k') == 'member' and not m.get('arrow'):
+                    names.append(m['field'])
+                    m = m['base']
+                if isinstance(m, dict) and m.get('k') == 'var' and m.get('name') in split:
+                    return m['name'], list(reversed(names))
+                return None, None
+
+            def as_var(x, root, names):
+                t = x.get('type', '')
+                v = {'k': 'var', 'name': '.'.join([root] + names), 'vk': 'local', 'type': t,
+                     'ptr': bool(x.get('tptr')) or '*' in t}
+                if x.get('trecord'):
+                    v['record'] = x['trecord']
+                return v
+
+            def sroa(x):
+                if x.get('k') == 'member' and not x.get('arrow'):
+                    root, names = chain_of(x)
+                    if root is not None:
+                        return as_var(x, root, names)
+                return x
+            # outermost chains first: _map_expr works bottom-up, so rewrite only maximal chains by a top-down pass
+            def top_down(x):
+                if isinstance(x, list):
+                    return [top_down(y) for y in x]
+                if not isinstance(x, dict) or 'k' not in x:
+                    return x
+                y = sroa(x)
+                if y is not x:
+                    return y
+                out = None
+                for key, val in x.items():
+                    if isinstance(val, (dict, list)) and not key.startswith('_') and key != 'sizeof':
+                        v2 = top_down(val)
+                        if v2 != val:
+                            if out is None:
+                                out = dict(x)
+                            out[key] = v2
+                return out if out is not None else x
+            for blk in g.blocks.values():
+                evs = []
+                for e in blk.events:
+                    if e['ev'] == 'decl' and e.get('name') in split:
+                        flds = prog.records.get(e['record'], {}).get('fields', [])
+                        for fl in flds:
+                            d = {k: v for k, v in e.items() if k not in ('record', 'ptr', 'type', 'name')}
+                            d.update(name='%s.%s' % (e['name'], fl['name']), type=fl.get('type', ''), ptr=bool(fl.get('ptr')))
+                            if fl.get('record'):
+                                d['record'] = fl['record']
+                            evs.append(d)
+                        if not flds:
+                            evs.append(e)
+                        continue
+                    upd = {}
+                    for key in _EXPR_KEYS:
+                        if key in e and isinstance(e[key], (dict, list)):
+                            v2 = top_down(e[key])
+                            if v2 != e[key]:
+                                upd[key] = v2
+                    evs.append(dict(e, **upd) if upd else e)
+                blk.events = evs
+                if blk.term and isinstance(blk.term.get('cond'), dict):
+                    c2 = top_down(blk.term['cond'])
+                    if c2 != blk.term['cond']:
+                        blk.term = dict(blk.term, cond=c2)
+            changed = True
+    if changed:
+        _renumber(g)
+    return changed
+
+
+def fuse_result_copies(g):
+    """`V = helper(..)` where the inlined helper returns a boolean expression and V is what gets tested
+    (`alive = dispatch_one(..); ... while (alive && ..)`): the inliner leaves `$retN = <expr>; ...; V = $retN`, and
+    $retN, never tested itself, is not recognised as a flag, nor is V (assigned a copy).  When the copy is the only
+    read of $retN and directly follows the return from the helper, the helper's return stores are retargeted to V and
+    the copy is dropped, so that flag partitioning sees `V = <boolean expr>`.  True if anything changed."""
+    reads, copies, taken = {}, {}, set()
+    for blk in g.blocks.values():
+        prev = None
+        for i, e in enumerate(blk.events):
+            for key in _EXPR_KEYS:
+                if key in e and isinstance(e[key], (dict, list)) and not (key == 'lhs' and isinstance(strip(e[key]), dict) and strip(e[key]).get('k') == 'var'):
+                    for x in ([y for a in e[key] for y in walk(a)] if isinstance(e[key], list) else walk(e[key])):
+                        if x.get('k') == 'var' and str(x.get('name', '')).startswith('$ret'):
+                            reads.setdefault(x['name'], set()).add(e.get('loc'))
+                        if x.get('k') == 'addr' and isinstance(strip(x.get('e')), dict) and strip(x['e']).get('k') == 'var':
+                            taken.add(strip(x['e'])['name'])
+            if e['ev'] == 'store' and e.get('op') == '=' and 'rhs' in e:
+                l, r = strip(e['lhs']), strip(e['rhs'])
+                if isinstance(l, dict) and l.get('k') == 'var' and l.get('vk') == 'local' and isinstance(r, dict) and r.get('k') == 'var' \
+                        and str(r['name']).startswith('$ret') and prev is not None and prev['ev'] == 'leave' and prev.get('retvar') == r['name']:
+                    copies.setdefault(r['name'], []).append((blk, e, e['lhs']))
+            if e['ev'] != 'load':
+                prev = e
+        if blk.term and isinstance(blk.term.get('cond'), dict):
+            for x in walk(blk.term['cond']):
+                if x.get('k') == 'var' and str(x.get('name', '')).startswith('$ret'):
+                    reads.setdefault(x['name'], set()).add('cond')
+    changed = False
+    for T, cs in copies.items():
+        locs = {e.get('loc') for _, e, _ in cs}
+        targets = {strip(l)['name'] for _, _, l in cs}
+        if reads.get(T) != locs or len(targets) != 1 or T in taken or list(targets)[0] in taken:
+            continue
+        defs = [(blk, i, e) for blk in g.blocks.values() for i, e in enumerate(blk.events)
+                if e['ev'] == 'store' and isinstance(strip(e['lhs']), dict) and strip(e['lhs']).get('k') == 'var' and strip(e['lhs'])['name'] == T]
+        if not defs or not all(e.get('op') == '=' and 'rhs' in e and e.get('is_ret') for _, _, e in defs):
+            continue
+        if not all(isinstance(strip(e['rhs']), dict) and (strip(e['rhs']).get('k') == 'int' or _is_boolean_expr(strip(e['rhs'])))
+                   for _, _, e in defs):
+            continue            # only flags: a returned pointer / number keeps its temporary
+        lhs = cs[0][2]
+        for blk, i, e in defs:
+            blk.events[i] = dict(e, lhs=lhs)
+        for blk, e, _ in cs:
+            blk.events = [x for x in blk.events if x is not e]
+        changed = True
+    if changed:
+        for b in g.blocks.values():
+            for i, e in enumerate(b.events):
+                e['_b'] = b.id
+                e['_i'] = i
+    return changed
+
+
+def prune_constant_branches(g):
+    """Branches whose condition is a constant after the inliner substituted constant arguments (a merged entry
+    point `ctl(w, 1)` / `ctl(w, 0)`, `switch (OP_ADD)`) keep only the edge that is taken; blocks that become
+    unreachable are dropped.  Sound: only edges refuted by the constant itself are removed.  Mutates g (a private
+    clone made by the inliner) and returns it."""
+    changed = False
+    for blk in g.blocks.values():
+        t = blk.term
+        if not t or t.get('cond') is None or len(blk.succ) < 2:
+            continue
+        v = const_of(t['cond'])
+        if v is None:
+            continue
+        if t.get('cls') == 'SwitchStmt':
+            cases = t.get('cases') or []
+            if len(cases) != len(blk.succ):
+                continue
+            keep = [s for cv, s in zip(cases, blk.succ) if cv == v] or [s for cv, s in zip(cases, blk.succ) if cv == 'default']
+            if len(keep) != 1:
+                continue
+            blk.succ = keep
+            blk.term = {k: x for k, x in t.items() if k not in ('cond', 'cases')}
+            blk.term.update(cls='Pruned', pruned='case %s' % v)
+        elif t.get('cls') == 'MethodDispatch' or len(blk.succ) != 2:
+            continue
+        else:
+            blk.succ = [blk.succ[0] if v else blk.succ[1]]
+            blk.term = {k: x for k, x in t.items() if k != 'cond'}
+            blk.term.update(cls='Pruned', pruned='true' if v else 'false')
+        changed = True
+    if changed:
+        seen, todo = {g.entry}, [g.entry]
+        while todo:
+            b = todo.pop()
+            for s in g.blocks[b].succ:
+                if s is not None and s not in seen:
+                    seen.add(s)
+                    todo.append(s)
+        for b in [b for b in g.blocks if b not in seen and b != g.exit]:
+            del g.blocks[b]
+        g._preds = None
+    return g
 
 
 def _func_of(prog, e, x):
@@ -165,6 +1737,20 @@ def fn_target(e):
 # Prov: provenance of the watch whose handler is called
 # --------------------------------------------------------------------------
 
+def _truth_valued(x):
+    """the expression is a truth value (0/1) or a sum of truth values: never negative, zero iff all its terms are"""
+    x = strip(x)
+    if not isinstance(x, dict):
+        return False
+    if x.get('k') == 'un' and x.get('op') == '!':
+        return True
+    if x.get('k') == 'bin' and x.get('op') in CMPOPS + ('&&', '||'):
+        return True
+    if x.get('k') == 'bin' and x.get('op') == '+':
+        return _truth_valued(x['l']) and _truth_valued(x['r'])
+    return False
+
+
 class Prov:
     """See module docstring.  State = (frozenset of (variable, value), frozenset of facts).
 
@@ -184,11 +1770,13 @@ class Prov:
                           read, nothing decided yet) | called | exhausted (a tree cursor was found NULL)
     """
 
-    def __init__(self, prog, g):
+    def __init__(self, prog, g, same_events=None):
         self.prog = prog
         self.g = g
         self.exprs = {}
         self.expr_keys = {}
+        # stores to a record pointer that (Walk) only re-derive the pointer to the current record: not a new record
+        self.same_events = same_events if same_events is not None else set()
         self.handler_locals = self._handler_locals()
         self.an_offset = next((f.get('offset') for f in prog.records.get(WATCH, {}).get('fields', []) if f['name'] == 'an'), None)
         self.sites = {}      # loc -> [dict per state]
@@ -288,7 +1876,7 @@ class Prov:
 
     def elem_id(self, p, vm):
         """tree element a pointer expression (node pointer or watch pointer) denotes"""
-        s = strip(self.resolve(p, vm))
+        s = strip(self.resolve(self.unwas(p, vm), vm))
         if not isinstance(s, dict):
             return None
         k = s.get('k')
@@ -341,11 +1929,25 @@ class Prov:
         return None
 
     # ---- branch facts ----------------------------------------------------------
+    def unwas(self, x, vm):
+        """A read that copy propagation replaced by the expression the local caches (`an == NULL` spelled
+        `this->watches.root == NULL`, annotated `_was: an`) is read as the local again when that local holds a tree
+        element here: the element is what the rules talk about, however its value is spelled."""
+        w = x
+        while isinstance(w, dict) and w.get('k') in ('load', 'cast'):
+            n = w.get('_was')
+            if n is not None:
+                val = vm.get(n)
+                if val and val[0] in ('obj', 'null'):
+                    return {'k': 'var', 'name': n, 'vk': 'local'}
+            w = w.get('e')
+        return x
+
     def zero_fact(self, x, zero, vm, facts, depth=0):
         """x == 0 (zero) / x != 0 holds; False when that contradicts the state"""
         if depth > 8:
             return True
-        s = strip(x)
+        s = strip(self.unwas(x, vm))
         if not isinstance(s, dict):
             return True
         k = s.get('k')
@@ -373,6 +1975,14 @@ class Prov:
             if val[0] == 'expr':
                 return self.zero_fact(self.exprs[val[1]], zero, vm, facts, depth + 1)
             return True
+        if k == 'member' and zero and (s.get('record'), s.get('field')) == (TREE, 'root') and last_member(s.get('base')) == (INST, 'watches'):
+            # the root of the instance's tree tested in place (`iv_avl_tree_empty(&this->watches)`, `!this->watches.root`):
+            # the cursor the lookup would start from was found NULL
+            if self.phase(facts) != 'called':
+                self.set_phase(facts, 'exhausted')
+            return True
+        if k == 'addr':
+            return not zero          # the address of an object is not NULL
         if k == 'un' and s['op'] == '!':
             return self.zero_fact(s['e'], not zero, vm, facts, depth + 1)
         if k == 'bin':
@@ -393,6 +2003,13 @@ class Prov:
                 return self.zero_fact(s['l'], False, vm, facts, depth + 1) and self.zero_fact(s['r'], False, vm, facts, depth + 1)
             if op in ('!=', '==') and const_of(s['r']) == 0:
                 return self.zero_fact(s['l'], zero == (op == '!='), vm, facts, depth + 1)
+            # arithmetic on truth values: a sum of 0/1-valued terms is zero iff every term is; `sum > 0`, `sum >= 1` is `sum != 0`
+            if op == '+' and zero and _truth_valued(self.resolve(s['l'], vm)) and _truth_valued(self.resolve(s['r'], vm)):
+                return self.zero_fact(s['l'], True, vm, facts, depth + 1) and self.zero_fact(s['r'], True, vm, facts, depth + 1)
+            if _truth_valued(self.resolve(s['l'], vm)) and ((op == '>' and const_of(s['r']) == 0) or (op == '>=' and const_of(s['r']) == 1)):
+                return self.zero_fact(s['l'], not zero, vm, facts, depth + 1)
+            if _truth_valued(self.resolve(s['l'], vm)) and ((op == '<' and const_of(s['r']) == 1) or (op == '<=' and const_of(s['r']) == 0)):
+                return self.zero_fact(s['l'], zero, vm, facts, depth + 1)
             if op in CMPOPS:
                 # the 0/1 value of a comparison: zero means the comparison is false
                 return self.apply_atoms(norm_cond(s, not zero), vm, facts, depth + 1)
@@ -436,6 +2053,69 @@ class Prov:
                 return {0, 1}
         return None
 
+    def order_fn(self, x, vm):
+        """(R, oid, {ordering: value}) if the integer expression x is determined by the ordering of (wd of record R, wd of
+        tree element oid): its only non-constant leaves are comparisons between those two keys; else None"""
+        pair = []
+
+        class Fail(Exception):
+            pass
+
+        def ev(e, o, depth=0):
+            if depth > 24 or not isinstance(e, dict):
+                raise Fail()
+            k = e.get('k')
+            if k in ('load', 'cast', 'paren', 'stmtexpr'):
+                return ev(e.get('e'), o, depth + 1)
+            c = const_of(e) if k in ('int', 'null') else None
+            if c is not None:
+                return c
+            if k == 'var':
+                val = vm.get(e['name']) if e.get('vk') in ('local', 'param') else None
+                if val and val[0] == 'int':
+                    return val[1]
+                if val and val[0] == 'null':
+                    return 0
+                if val and val[0] == 'expr':
+                    return ev(self.exprs[val[1]], o, depth + 1)
+                raise Fail()
+            if k == 'un' and e.get('op') in ('!', '-', '~'):
+                v = ev(e['e'], o, depth + 1)
+                return int(not v) if e['op'] == '!' else (-v if e['op'] == '-' else ~v)
+            if k == 'cond':
+                return ev(e['a'] if ev(e['c'], o, depth + 1) else e['b'], o, depth + 1)
+            if k == 'bin':
+                op = e['op']
+                if op in CMPOPS:
+                    a, b = self.classify(e['l'], vm), self.classify(e['r'], vm)
+                    if a and b and {a[0], b[0]} == {'key', 'node'}:
+                        if a[0] == 'node':
+                            a, b, op = b, a, SWAPOP[op]
+                        if not pair:
+                            pair.append((a[1], b[1]))
+                        elif pair[0] != (a[1], b[1]):
+                            raise Fail()
+                        return int(interp.cmp_holds(o, op))
+                if op == '&&':
+                    return int(bool(ev(e['l'], o, depth + 1)) and bool(ev(e['r'], o, depth + 1)))
+                if op == '||':
+                    return int(bool(ev(e['l'], o, depth + 1)) or bool(ev(e['r'], o, depth + 1)))
+                l, r = ev(e['l'], o, depth + 1), ev(e['r'], o, depth + 1)
+                if op in CMPOPS:
+                    return int({'==': l == r, '!=': l != r, '<': l < r, '>': l > r, '<=': l <= r, '>=': l >= r}[op])
+                if op in ('+', '-', '*', '&', '|', '^'):
+                    return {'+': l + r, '-': l - r, '*': l * r, '&': l & r, '|': l | r, '^': l ^ r}[op]
+                if op in ('<<', '>>') and 0 <= r < 32:
+                    return (l << r) if op == '<<' else (l >> r)
+            raise Fail()
+        try:
+            tab = {o: ev(x, o) for o in '<=>'}
+        except Fail:
+            return None
+        if not pair:
+            return None
+        return pair[0][0], pair[0][1], tab
+
     def apply_atoms(self, atoms, vm, facts, depth=0):
         """add what the atoms (all of which hold) say to vm/facts; False when they contradict the state"""
         for (op, lc, rc, l, r) in atoms:
@@ -447,6 +2127,18 @@ class Prov:
                 continue
             cr = const_of(r) if isinstance(r, dict) else None
             if cr is not None:
+                # an integer computed from comparisons of the record's wd with one node's wd (a three-way result, a packed
+                # order code, an element of a sign table): a function of their ordering, tabulated over the three orderings
+                of = self.order_fn(l, vm)
+                if of is not None:
+                    R, oid, tab = of
+                    for o in '<=>':
+                        n = tab[o]
+                        if not {'==': n == cr, '!=': n != cr, '<': n < cr, '>': n > cr, '<=': n <= cr, '>=': n >= cr}[op]:
+                            facts.add(('no', oid, R, o))
+                    if len(self.excluded(oid, R, facts)) == 3:
+                        return False
+                    continue
                 # a variable with known possible values (constant, or the 0/1 result of a comparison)
                 poss = self.int_value(l, vm)
                 if poss is not None:
@@ -459,6 +2151,11 @@ class Prov:
                     continue
             if cr == 0 and op in ('==', '!='):
                 if not self.zero_fact(l, op == '==', vm, facts, depth + 1):
+                    return False
+                continue
+            if cr is not None and (op, cr) in (('>', 0), ('>=', 1), ('<=', 0), ('<', 1)) and _truth_valued(self.resolve(l, vm)):
+                # a count of conditions that hold, compared with zero
+                if not self.zero_fact(l, (op, cr) in (('<=', 0), ('<', 1)), vm, facts, depth + 1):
                     return False
                 continue
             if cr is not None and op in ('==', '!='):
@@ -516,6 +2213,10 @@ class Prov:
                         newobj = True
                         if obs is not None:
                             obs.append(('tree', e['loc']))
+                            # a lookup starts although the current record was already delivered / given up: the walk
+                            # did not advance (the same record is dispatched again, or the loop spins on it)
+                            if self.phase(facts) in ('called', 'exhausted'):
+                                obs.append(('miss', e['loc'], False))
                 elif lm in ((NODE, 'left'), (NODE, 'right')):
                     if s['arrow']:
                         oid0 = self.elem_id(s['base'], vm)
@@ -537,6 +2238,8 @@ class Prov:
                 oid0 = self.elem_id(s, vm)
                 if oid0:
                     val = ('obj', oid0)
+            elif k == 'addr' and is_ptr_to(xnode, NODE) and self.elem_id(s, vm):
+                val = ('obj', self.elem_id(s, vm))        # `victim = &w->an`: the node of that watch
             elif k == 'call' and s.get('callee') in ('iv_avl_tree_min', 'iv_avl_tree_max') and s.get('args'):
                 newobj = self.is_inst_tree(s['args'][0], vm)
                 if newobj and obs is not None:
@@ -551,6 +2254,18 @@ class Prov:
                 self.expr_keys[key] = frozenset(addr_keys(rhs) or _keys_read(rhs))
                 val = ('expr', key)
         self.kill_var(x, vm, facts)
+        if is_ptr_to(xnode, REC) and not (val and val[0] == 'rec') and id(e) in self.same_events:
+            # the pointer to the current record computed once more (`it->base + it->pos` again, to read ->len): another
+            # name of the current record
+            cur = [y for y, v in vm.items() if v[0] == 'rec']
+            roots = {vm[y][1] for y in cur}
+            if len(roots) == 1:
+                vm[x] = ('rec', roots.pop())
+                return
+            if not cur and self.phase(facts) != 'none':
+                # the record variable itself went out of scope: x takes over as the record
+                vm[x] = ('rec', x)
+                return
         if is_ptr_to(xnode, REC) and not (val and val[0] == 'rec'):
             # a new record: the previous one must have been delivered or its lookup exhausted
             if obs is not None:
@@ -753,6 +2468,27 @@ class Prov:
         return frozenset(out)
 
     def edge(self, blk, si, S):
+        if blk.term and blk.term.get('cls') == 'SwitchStmt' and isinstance(blk.term.get('cond'), dict):
+            # `switch (x)`: x == v on the edge of `case v`, x != every case value on the default edge
+            cases = blk.term.get('cases') or []
+            c = blk.term['cond']
+            if si >= len(cases) or len(cases) != len(blk.succ) or not _pure_path(c):
+                return S
+            same = [cv for j, cv in enumerate(cases) if blk.succ[j] == blk.succ[si]]
+            if len(same) != 1:
+                return S
+            if isinstance(cases[si], int):
+                atoms = [('==', canon(c), str(cases[si]), c, {'k': 'int', 'v': cases[si]})]
+            elif cases[si] == 'default':
+                atoms = [('!=', canon(c), str(cv), c, {'k': 'int', 'v': cv}) for cv in cases if isinstance(cv, int)]
+            else:
+                return S
+            out = set()
+            for st in S:
+                r = self.refine(st, atoms)
+                if r is not None:
+                    out.add(r)
+            return frozenset(out) if out else None
         if not blk.term or len(blk.succ) != 2 or blk.term.get('cond') is None \
                 or blk.term.get('cls') in ('SwitchStmt', 'MethodDispatch'):
             return S
@@ -824,10 +2560,225 @@ def with_address_copies_resolved(g):
     return g2
 
 
+# --------------------------------------------------------------------------
+# Stale: what may be touched after a handler ran
+# --------------------------------------------------------------------------
+
+def pointer_sources(rhs):
+    """Names of the variables a pointer value is a copy of or is derived from without reading memory
+    (casts, `&v->a.b`, `&v->a[i]`, iv_container_of(v, ..), `v +/- k`, arms of a conditional expression);
+    empty when the value is fresh (read from memory, returned by a call, a constant)."""
+    s = strip(rhs)
+    if not isinstance(s, dict):
+        return set()
+    k = s.get('k')
+    if k == 'var':
+        return {s['name']} if s.get('vk') != 'func' else set()
+    if k == 'addr':
+        m = strip(s['e'])
+        arrow = False
+        while isinstance(m, dict) and m.get('k') in ('member', 'index'):
+            if m['k'] == 'member':
+                if m['arrow']:
+                    if arrow:
+                        return set()            # &v->a->b reads memory: a fresh value
+                    arrow = True
+                m = strip(m['base'])
+            else:
+                m = strip(m['base']) if 'bound' in m else None
+        if isinstance(m, dict) and m.get('k') == 'var' and arrow:
+            return {m['name']}
+        return set()
+    if k == 'container_of':
+        return pointer_sources(s['e'])
+    if k == 'bin' and s['op'] in ('+', '-'):
+        out = pointer_sources(s['l'])
+        if s['op'] == '+':
+            out = out | pointer_sources(s['r'])
+        return out
+    if k == 'cond':
+        return pointer_sources(s['a']) | pointer_sources(s['b'])
+    return set()
+
+
+def stale_after_handler(g, is_callback, records, term):
+    """Forward may-analysis of the (inlined) dispatcher g: which pointers may refer to an object a user callback
+    has unregistered / freed.
+
+    Tracked are the pointer variables to user-owned records (`records`) *and every variable that is a copy of one
+    or is derived from one without reading memory* (the void * the instance came in as, `t = &inst->watches`,
+    `an`/iv_container_of(an), helper parameters): the classes of the relation "v is assigned a copy/derivation of u".
+    After a callback every tracked variable is stale.  An assignment makes its target as stale as its sources
+    (fresh when the value is read from memory or returned by a call).  The only thing that vouches for an object
+    after user code ran is the library's own liveness protocol: `X->term = &P` (store to the record/field `term`)
+    publishes the local P as the slot iv_inotify_unregister() nulls; while that publication is in place and P was
+    not written by the dispatcher itself, the edge `P != NULL` revives X (the instance the slot was published for), the
+    variables X was copied from and those only ever derived from them, whatever P is (the instance pointer itself, a
+    dedicated flag word, a member of a context struct, ...).
+
+    Returns (reports [(event, variable, access, callback loc)], {tracked variable: record kind}, {P: [X...]})."""
+    from ..analyses import derefs_by_event, _top_deref
+    objvars = {}
+    for e in g.events():
+        for x in walk(e):
+            if x.get('k') == 'var' and x.get('vk') in ('local', 'param') and x.get('ptr') and x.get('record') in records:
+                objvars[x['name']] = x['record']
+        if e['ev'] == 'decl' and e.get('ptr') and e.get('record') in records:
+            objvars[e['name']] = e['record']
+    for p in g.params:
+        if p.get('ptr') and p.get('record') in records:
+            objvars[p['name']] = p['record']
+    # classes of the copy/derivation relation
+    parent = {}
+
+    def find(a):
+        parent.setdefault(a, a)
+        while parent[a] != a:
+            parent[a] = parent[parent[a]]
+            a = parent[a]
+        return a
+    for e in g.events():
+        if e['ev'] == 'store' and e.get('op') == '=' and 'rhs' in e:
+            l = strip(e['lhs'])
+            lname = l['name'] if isinstance(l, dict) and l.get('k') == 'var' else None
+            if lname is not None:
+                for u in pointer_sources(e['rhs']):
+                    parent[find(u)] = find(lname)
+    cls = {}
+    for n in list(parent):
+        cls.setdefault(find(n), set()).add(n)
+    for n in objvars:
+        cls.setdefault(find(n), set()).add(n)
+    order = list(records)
+    kind = {}
+    for root, members in cls.items():
+        recs = sorted({objvars[m] for m in members if m in objvars}, key=order.index)
+        if recs:
+            for m in members:
+                kind[m] = recs[0]
+    tracked = set(kind)
+    # definitions per variable: {loc: sources or None (fresh value)}
+    defs_of = {}
+    for e in g.events():
+        if e['ev'] == 'store' and e.get('op') == '=' and 'rhs' in e:
+            l = strip(e['lhs'])
+            if isinstance(l, dict) and l.get('k') == 'var':
+                src = pointer_sources(e['rhs'])
+                defs_of.setdefault(l['name'], {})[e.get('loc')] = frozenset(src) if src else None
+
+    def vouched(X):
+        """the variables that hold (a pointer into) the object X points to whenever they hold anything: the variables X
+        was copied / derived from through single definitions, and every variable all of whose definitions copy or
+        derive from those (flow-insensitive, so a temporary that is also used for something else is excluded)"""
+        G, todo = {X}, [X]
+        while todo:
+            v = todo.pop()
+            ds = defs_of.get(v, {})
+            if len(ds) == 1 and list(ds.values())[0]:
+                for u in list(ds.values())[0]:
+                    if u not in G:
+                        G.add(u)
+                        todo.append(u)
+        grew = True
+        while grew:
+            grew = False
+            for v, ds in defs_of.items():
+                if v not in G and ds and all(srcs and srcs <= G for srcs in ds.values()):
+                    G.add(v)
+                    grew = True
+        return G
+    # publications of a liveness slot
+    pubs = {}            # id(event) -> P
+    markers = {}         # P -> variables vouched for
+    for e in g.events():
+        if e['ev'] == 'store' and last_member(e['lhs']) == term and 'rhs' in e:
+            r = strip(e['rhs'])
+            if isinstance(r, dict) and r.get('k') == 'addr' and lvar(r['e']) is not None:
+                P = lvar(r['e'])['name']
+                pubs[id(e)] = P
+                X = _top_deref(e['lhs'])
+                markers.setdefault(P, set())
+                if X is not None:
+                    markers[P] |= vouched(X['name'])
+
+    def stale_of(S, n):
+        for x in S:
+            if x[0] == 's' and x[1] == n:
+                return x[2]
+        return None
+
+    def transfer(e, S):
+        if e['ev'] == 'store':
+            l = strip(e['lhs'])
+            if isinstance(l, dict) and l.get('k') == 'var':
+                n = l['name']
+                if n in markers and ('u', n) not in S and id(e) not in pubs:
+                    S = S | {('u', n)}        # the dispatcher itself overwrote the published slot
+                if n in tracked and e.get('op') == '=' and 'rhs' in e:
+                    src = [stale_of(S, u) for u in pointer_sources(e['rhs'])]
+                    src = [x for x in src if x is not None]
+                    S = frozenset(x for x in S if not (x[0] == 's' and x[1] == n))
+                    if src:
+                        S = S | {('s', n, src[0])}
+            elif last_member(e['lhs']) == term:
+                P = pubs.get(id(e))
+                S = frozenset(x for x in S if not (x[0] == 'u' and x[1] == P)) | {('u', q) for q in markers if q != P}
+        elif e['ev'] == 'decl':
+            if stale_of(S, e['name']) is not None:
+                S = frozenset(x for x in S if not (x[0] == 's' and x[1] == e['name']))
+        elif e['ev'] == 'call':
+            if is_callback(e):
+                S = frozenset(x for x in S if x[0] != 's') | {('s', v, e.get('loc')) for v in tracked}
+        return S
+
+    def edge(blk, si, S):
+        if not S or not blk.term or blk.term.get('cond') is None or len(blk.succ) != 2:
+            return S
+        if blk.term.get('cls') in ('SwitchStmt', 'MethodDispatch'):
+            return S
+        for (op, lc, rc, l, r) in norm_cond(blk.term['cond'], si == 0):
+            v = lvar(l) if isinstance(l, dict) else None
+            if op == '!=' and rc == '0' and v is not None and v['name'] in markers and ('u', v['name']) not in S:
+                alive = markers[v['name']]
+                S = frozenset(x for x in S if not (x[0] == 's' and x[1] in alive))
+        return S
+
+    init = frozenset(('u', P) for P in markers)
+    _, ev_in = forward(g, init, transfer, lambda a, b: a | b, edge=edge)
+    reports = []
+    for b, blk in g.blocks.items():
+        for i, e in enumerate(blk.events):
+            S = ev_in.get((b, i))
+            if not S or not any(x[0] == 's' for x in S):
+                continue
+            names = {x[1]: x[2] for x in S if x[0] == 's'}
+            seen = set()
+            for (v, acc) in derefs_by_event(e):
+                if v['name'] in names and (v['name'], acc) not in seen:
+                    seen.add((v['name'], acc))
+                    reports.append((e, v['name'], acc, names[v['name']]))
+            if e['ev'] == 'call':
+                # a stale pointer handed to a function that is not analysed inline
+                for a in e.get('args', []):
+                    v = lvar(a)
+                    if v is not None and v['name'] in names and v.get('ptr', True) and (v['name'], v['name']) not in seen:
+                        seen.add((v['name'], v['name']))
+                        reports.append((e, v['name'], '%s (passed to %s)' % (v['name'], e.get('callee') or 'the callee'), names[v['name']]))
+    return reports, kind, {P: sorted(vs) for P, vs in markers.items()}
+
+
 def prov(prog):
     c = _cache(prog)
     if 'prov' not in c:
-        c['prov'] = Prov(prog, inlined_local(prog, dispatcher(prog)))
+        g = inlined_local(prog, dispatcher(prog))
+        # the walk analysis first (it only needs to know which calls are watch handler calls): it tells which stores to a
+        # record pointer merely re-derive the current record
+        p0 = Prov.__new__(Prov)
+        p0.prog, p0.g, p0.exprs, p0.expr_keys = prog, g, {}, {}
+        p0.handler_locals = p0._handler_locals()
+        w = Walk(prog, g, p0.is_watch_handler_call)
+        c['walk'] = w
+        c['prov'] = Prov(prog, g, same_events=w.same_events)
     return c['prov']
 
 
@@ -853,7 +2804,10 @@ class Walk:
         self.recdefs = {}       # loc -> [(value, ok-candidate)]
         self.delivered = {}     # loc -> [ok]
         self.readbufs = set()
+        self.same_events = set()    # id(store event): in every state it re-derives the pointer to the current record
+        self._kinds = {}            # id(store event) -> set of observation kinds
         self.run()
+        self.same_events = {i for i, ks in self._kinds.items() if ks == {'same'}}
 
     # ---- types ---------------------------------------------------------------
     def typeof(self, x):
@@ -877,10 +2831,22 @@ class Walk:
             return self.typeof(x['l'])
         return x.get('type')
 
+    @staticmethod
+    def unqual(t):
+        """type string without trailing qualifiers of the outermost level (`uint8_t *const` -> `uint8_t *`)"""
+        t = (t or '').strip()
+        while True:
+            for q in ('const', 'volatile', 'restrict', '__restrict'):
+                if t.endswith(q) and (len(t) == len(q) or not (t[-len(q) - 1].isalnum() or t[-len(q) - 1] == '_')):
+                    t = t[:-len(q)].rstrip()
+                    break
+            else:
+                return t
+
     def pointee_size(self, t):
         if not t:
             return None
-        t = t.strip()
+        t = self.unqual(t)
         if t.endswith(']'):
             el = t[:t.index('[')].strip()
         elif t.endswith('*'):
@@ -896,37 +2862,60 @@ class Walk:
         return {'short': 2, 'unsigned short': 2, 'uint16_t': 2, 'int': 4, 'unsigned int': 4, 'uint32_t': 4,
                 'int32_t': 4, 'long': 8, 'unsigned long': 8, 'uint64_t': 8, 'int64_t': 8, 'size_t': 8, 'ssize_t': 8}.get(el)
 
+    def scale_of(self, x):
+        """what 1 is worth in bytes when added to the expression x: the size of its pointee, 1 for an address kept in an
+        integer (uintptr_t)"""
+        t = self.typeof(x)
+        return self.pointee_size(t) if self.is_ptr_type(t) else 1
+
     def is_ptr_type(self, t):
-        return bool(t) and (t.rstrip().endswith('*') or t.rstrip().endswith(']'))
+        t = self.unqual(t)
+        return bool(t) and (t.endswith('*') or t.endswith(']'))
 
     # ---- values ----------------------------------------------------------------
+    # (base, c, k, r, o) = base + c + k*LEN + r*RET + o*OFF
+    #   base  None (an integer) or ('arr', A) (the address of the local array A)
+    #   LEN   the len field of the current record, RET the value read() returned, OFF the offset of the current
+    #         record in its array (REC = A + OFF).  While OFF is a known constant ('#rec' = (A, c0)) no value
+    #         carries an OFF term (canonical form); after `rec = A + c + LEN` it is symbolic.
     @staticmethod
     def is_ptr(v):
-        return v[0] == 'REC' or (isinstance(v[0], tuple) and v[0][0] == 'arr')
+        return v[0] is not None
 
     @classmethod
     def add(cls, a, b, scale=1, sign=1):
         """a + sign * scale * b; scale applies to the integer operand of pointer arithmetic"""
         if a is None or b is None or scale is None:
             return None
-        if cls.is_ptr(b):
-            if cls.is_ptr(a) or sign < 0:
+        if b[0] is not None:
+            if a[0] is None and sign > 0:
+                a, b = b, a
+            elif a[0] == b[0] and sign < 0 and scale == 1:
+                return (None, a[1] - b[1], a[2] - b[2], a[3] - b[3], a[4] - b[4])
+            else:
                 return None
-            a, b = (b[0], b[1], b[2]), (a[0], a[1], a[2])
-            off, k = a[1] + scale * b[1], a[2] + scale * b[2]
-        else:
-            off, k = a[1] + sign * scale * b[1], a[2] + sign * scale * b[2]
-        if b[0] is None:
-            base = a[0]
-        elif a[0] is None and sign > 0:
-            base = b[0]
-        elif sign > 0 and a[0] == ('arr', b[0][1]):
-            base = 'REC'               # A + (offset of REC in A)
-        else:
+        s = sign * scale
+        return (a[0], a[1] + s * b[1], a[2] + s * b[2], a[3] + s * b[3], a[4] + s * b[4])
+
+    @staticmethod
+    def rec_val(vm):
+        """canonical value of the pointer to the current record, None before the first record"""
+        r = vm.get('#rec')
+        if not r:
             return None
-        return (base, off, k)
+        return (('arr', r[0]), r[1], 0, 0, 0) if r[1] is not None else (('arr', r[0]), 0, 0, 0, 1)
+
+    @staticmethod
+    def fold_off(v, vm):
+        r = vm.get('#rec')
+        if v is not None and v[4] != 0 and r and r[1] is not None:
+            return (v[0], v[1] + v[4] * r[1], v[2], v[3], 0)
+        return v
 
     def lin(self, x, vm):
+        return self.fold_off(self.lin1(x, vm), vm)
+
+    def lin1(self, x, vm):
         if not isinstance(x, dict):
             return None
         k = x.get('k')
@@ -934,23 +2923,34 @@ class Walk:
             return self.lin(x.get('e'), vm)
         c = const_of(x) if k in ('int', 'null') else None
         if c is not None:
-            return (None, c, 0)
+            return (None, c, 0, 0, 0)
         if k == 'var':
             if x.get('vk') not in ('local', 'param'):
                 return None
             if x.get('type', '').rstrip().endswith(']'):
-                return (('arr', x['name']), 0, 0)
+                return (('arr', x['name']), 0, 0, 0, 0)
             return vm.get(x['name'])
+        if k == 'call':
+            return (None, 0, 0, 1, 0) if x.get('callee') == 'read' else None
+        if k == 'un' and x.get('op') == '-':
+            v = self.lin(x.get('e'), vm)
+            return (None, -v[1], -v[2], -v[3], -v[4]) if v is not None and v[0] is None else None
         if k == 'member':
             lm = (x.get('record'), x['field'])
             if not x['arrow']:
+                # an array member of a local struct / union (`union { uint8_t bytes[N]; struct inotify_event align; } q`)
+                m = x
+                while isinstance(m, dict) and m.get('k') == 'member' and not m.get('arrow'):
+                    m = m['base']
+                if isinstance(m, dict) and m.get('k') == 'var' and m.get('vk') == 'local' and self.unqual(x.get('type', '')).endswith(']'):
+                    return (('arr', canon(x)), 0, 0, 0, 0)
                 return None
             b = self.lin(x['base'], vm)
             if lm == (REC, 'len'):
-                return (None, 0, 1) if b == ('REC', 0, 0) else None
+                return (None, 0, 1, 0, 0) if b is not None and b == self.rec_val(vm) else None
             if x.get('type', '').rstrip().endswith(']'):      # array member decays to its address
                 off = self.offset(lm)
-                return self.add(b, (None, off, 0)) if off is not None else None
+                return self.add(b, (None, off, 0, 0, 0)) if off is not None else None
             return None
         if k == 'addr':
             m = x['e']
@@ -959,12 +2959,12 @@ class Walk:
             if isinstance(m, dict) and m.get('k') == 'index':
                 b = self.lin(m['base'], vm)
                 i = self.lin(m['idx'], vm)
-                return self.add(b, i, self.pointee_size(self.typeof(m['base']))) if b and self.is_ptr(b) else None
+                return self.add(b, i, self.pointee_size(self.typeof(m['base']))) if b and self.is_ptr(b) and i and not self.is_ptr(i) else None
             if isinstance(m, dict) and m.get('k') == 'member' and m['arrow']:
                 off = self.offset((m.get('record'), m['field']))
-                return self.add(self.lin(m['base'], vm), (None, off, 0)) if off is not None else None
+                return self.add(self.lin(m['base'], vm), (None, off, 0, 0, 0)) if off is not None else None
             if isinstance(m, dict) and m.get('k') == 'var' and m.get('type', '').rstrip().endswith(']'):
-                return (('arr', m['name']), 0, 0)
+                return (('arr', m['name']), 0, 0, 0, 0)
             if isinstance(m, dict) and m.get('k') == 'deref':
                 return self.lin(m['e'], vm)
             return None
@@ -974,18 +2974,18 @@ class Walk:
                 return None
             sgn = 1 if x['op'] == '+' else -1
             if self.is_ptr(l) and not self.is_ptr(r):
-                return self.add(l, r, self.pointee_size(self.typeof(x['l'])), sgn)
+                return self.add(l, r, self.scale_of(x['l']), sgn)
             if self.is_ptr(r) and not self.is_ptr(l) and sgn > 0:
-                return self.add(r, l, self.pointee_size(self.typeof(x['r'])))
-            if not self.is_ptr(l) and not self.is_ptr(r):
-                return self.add(l, r, 1, sgn)
-            return None
+                return self.add(r, l, self.scale_of(x['r']))
+            if self.is_ptr(l) and self.is_ptr(r):
+                return self.add(l, r, self.scale_of(x['l']), sgn)
+            return self.add(l, r, 1, sgn)
         if k == 'bin' and x['op'] == '*':
             for a, b in ((x['l'], x['r']), (x['r'], x['l'])):
                 c = const_of(b)
                 v = self.lin(a, vm)
                 if c is not None and v is not None and v[0] is None:
-                    return (None, v[1] * c, v[2] * c)
+                    return (None, v[1] * c, v[2] * c, v[3] * c, v[4] * c)
             return None
         return None
 
@@ -996,6 +2996,50 @@ class Walk:
         return None
 
     # ---- transfer -----------------------------------------------------------------
+    def rebase(self, vm, v, x):
+        """state after `x = v` made v the current record: every other value is re-expressed over the new record's
+        OFF (and loses its meaning if it still needs the old record's LEN)"""
+        old = vm.get('#rec')
+        new = {}
+        A = v[0][1]
+        if old is None or old[0] != A or old[1] is not None:
+            # no OFF terms around (first record of this array, or OFF was a known constant)
+            cv, kv, rv = v[1], v[2], v[3]
+            if v[4] != 0:
+                kv = None
+            if kv == 0 and rv == 0:
+                new['#rec'] = (A, cv)
+                for y, u in vm.items():
+                    if y != '#rec' and u[2] == 0 and u[4] == 0:
+                        new[y] = u
+            else:
+                new['#rec'] = (A, None)
+                for y, u in vm.items():
+                    if y == '#rec' or u[4] != 0:
+                        continue
+                    if u[2] == 0:
+                        new[y] = u
+                    elif kv in (1, -1):
+                        m = u[2] * kv
+                        new[y] = (u[0], u[1] - m * cv, 0, u[3] - m * rv, m)
+        else:
+            cv, kv, rv, ov = v[1], v[2], v[3], v[4]
+            if ov == 1:
+                new['#rec'] = (A, None)
+                for y, u in vm.items():
+                    if y == '#rec':
+                        continue
+                    w = (u[0], u[1] - u[4] * cv, u[2] - u[4] * kv, u[3] - u[4] * rv, u[4])
+                    if w[2] == 0:
+                        new[y] = w
+            else:
+                new['#rec'] = (A, cv if (ov == 0 and kv == 0 and rv == 0) else None)
+                for y, u in vm.items():
+                    if y != '#rec' and u[2] == 0 and u[4] == 0:
+                        new[y] = u
+        new[x] = self.rec_val(new)
+        return new
+
     def tr_one(self, e, st, obs=None):
         ev = e['ev']
         if ev == 'decl':
@@ -1006,12 +3050,19 @@ class Walk:
             vm = dict(st)
             if obs is not None and e.get('callee') == 'read' and len(e.get('args', [])) >= 2:
                 v = self.lin(e['args'][1], vm)
-                if v and isinstance(v[0], tuple) and v[1:] == (0, 0):
+                if v and isinstance(v[0], tuple) and v[1:] == (0, 0, 0, 0):
                     self.readbufs.add(v[0][1])
             if obs is not None and self.is_handler_call(e):
                 a = e.get('args', [])
-                obs.append(('deliver', e['loc'], len(a) >= 2 and self.lin(a[1], vm) == ('REC', 0, 0)))
-            ch = False
+                R = self.rec_val(vm)
+                # the record passed is the current one, and it was not handed to a handler before (the walk advanced
+                # since the previous delivery)
+                obs.append(('deliver', e['loc'], len(a) >= 2 and R is not None and self.lin(a[1], vm) == R and '#delivered' not in vm))
+            if self.is_handler_call(e):
+                vm['#delivered'] = (None, 1, 0, 0, 0)
+                ch = True
+            else:
+                ch = False
             for a in e.get('args', []):
                 a = strip(a)
                 if isinstance(a, dict) and a.get('k') == 'addr' and lvar(a['e']) is not None and lvar(a['e'])['name'] in vm:
@@ -1031,32 +3082,49 @@ class Walk:
         elif op in ('+=', '-=') and 'rhs' in e:
             cur = vm.get(x)
             scale = self.pointee_size(xn.get('type')) if self.is_ptr_type(xn.get('type')) else 1
-            v = self.add(cur, self.lin(e['rhs'], vm), scale, 1 if op == '+=' else -1) if cur and self.is_ptr(cur) == self.is_ptr_type(xn.get('type')) else None
+            v = self.add(cur, self.lin(e['rhs'], vm), scale, 1 if op == '+=' else -1) if cur and (self.is_ptr(cur) or not self.is_ptr_type(xn.get('type'))) else None
         elif op in ('++', '--'):
             cur = vm.get(x)
             scale = self.pointee_size(xn.get('type')) if self.is_ptr_type(xn.get('type')) else 1
-            v = self.add(cur, (None, 1, 0), scale, 1 if op == '++' else -1)
+            v = self.add(cur, (None, 1, 0, 0, 0), scale, 1 if op == '++' else -1)
         else:
             v = None
+        v = self.fold_off(v, vm)
         src = lvar(e['rhs']) if op == '=' and 'rhs' in e else None
+        R = self.rec_val(vm)
+        if op == '=' and 'rhs' in e and v is not None and v == R and not (src is not None and is_ptr_to(src, REC)):
+            # copy propagation replaced the read of a local by the expression it caches and left the local's name
+            # (`_was`): `event = $ret3` reads `event = cur.pos`.  A copy of a variable holding the current record.
+            w = e['rhs']
+            while isinstance(w, dict) and w.get('k') in ('load', 'cast'):
+                if w.get('_was') is not None and vm.get(w['_was']) == R:
+                    src = {'k': 'var', 'name': w['_was'], 'vk': 'local', 'type': 'struct %s *' % REC, 'record': REC, 'ptr': True}
+                    break
+                w = w.get('e')
         if is_ptr_to(xn, REC) and not (src is not None and is_ptr_to(src, REC)):
-            # definition of a record: re-base everything on it
+            # definition of a record: the obligation is about where it lies relative to the previous one
+            if v is None or not self.is_ptr(v):
+                if obs is not None:
+                    obs.append(('recdef', e['loc'], None))
+                    self._kinds.setdefault(id(e), set()).add('unknown')
+                new = {y: u for y, u in vm.items() if y != '#rec' and u[2] == 0 and u[4] == 0}
+                return frozenset(new.items())
+            if R is None or R[0] != v[0]:
+                o = ('first', v)
+            elif v == R:
+                # the pointer to the current record computed once more: another name for it, nothing advances
+                if obs is not None:
+                    obs.append(('recdef', e['loc'], ('same',)))
+                    self._kinds.setdefault(id(e), set()).add('same')
+                vm[x] = R
+                return frozenset(vm.items())
+            else:
+                o = ('next', (None, v[1] - R[1], v[2] - R[2], v[3] - R[3], v[4] - R[4]))
             if obs is not None:
-                obs.append(('recdef', e['loc'], v))
-            new = {}
-            arr = v[0][1] if v is not None and isinstance(v[0], tuple) and v[0][0] == 'arr' else None
-            for y, u in vm.items():
-                if v is not None and u == v:
-                    new[y] = ('REC', 0, 0)
-                elif arr is not None and u == (None, v[1], v[2]):
-                    new[y] = (('off', arr), 0, 0)          # an integer that is the offset of the new record in its array
-                elif v is not None and v[0] == 'REC' and isinstance(u[0], tuple) and u[0][0] == 'off' and u[1:] == v[1:]:
-                    new[y] = (u[0], 0, 0)
-                elif u[0] == 'REC' or u[2] != 0 or (isinstance(u[0], tuple) and u[0][0] == 'off'):
-                    continue
-                else:
-                    new[y] = u
-            new[x] = ('REC', 0, 0)
+                obs.append(('recdef', e['loc'], o))
+                self._kinds.setdefault(id(e), set()).add(o[0])
+            new = self.rebase(vm, v, x)
+            new.pop('#delivered', None)
             return frozenset(new.items())
         if v is None:
             vm.pop(x, None)
@@ -1075,7 +3143,7 @@ class Walk:
                 for st in out:
                     for y, u in st:
                         vals.setdefault(y, set()).add(u)
-                wide = {y for y, us in vals.items() if len(us) > 6}
+                wide = {y for y, us in vals.items() if len(us) > 6 and y != '#rec'}
                 if wide:
                     out = frozenset(frozenset((y, u) for y, u in st if y not in wide) for st in out)
             if len(out) > MAXSTATES:
@@ -1093,25 +3161,34 @@ class Walk:
             else:
                 self.delivered.setdefault(o[1], []).append(o[2])
 
-    def recdef_ok(self, v):
-        if v is None:
+    def recdef_ok(self, o):
+        if o is None:
             return False
-        if v == ('REC', self.recsize, 1):
+        if o[0] == 'same':
             return True
-        return isinstance(v[0], tuple) and v[0][0] == 'arr' and v[0][1] in self.readbufs and v[1:] == (0, 0)
+        if o[0] == 'next':
+            return o[1] == (None, self.recsize, 1, 0, 0)
+        v = o[1]
+        return isinstance(v[0], tuple) and v[0][0] == 'arr' and v[0][1] in self.readbufs and v[1:] == (0, 0, 0, 0)
 
-    def show(self, v):
-        if v is None:
+    def show(self, o):
+        def terms(v):
+            ts = ['%d' % v[1]] + ['%d*%s' % (c, n) for c, n in ((v[2], 'len'), (v[3], '(bytes read)'), (v[4], '(offset of the previous record)')) if c]
+            return ' + '.join(ts)
+        if o is None:
             return 'unknown'
-        base = 'previous record' if v[0] == 'REC' else ('%s of %s' % ('start' if v[0][0] == 'arr' else 'record offset', v[0][1]) if isinstance(v[0], tuple) else 'integer')
-        return '%s + %d + %d*len' % (base, v[1], v[2])
+        if o[0] == 'same':
+            return 'the current record'
+        if o[0] == 'next':
+            return 'previous record + ' + terms(o[1])
+        v = o[1]
+        return 'start of %s + %s (no record defined before)' % (v[0][1], terms(v))
 
 
 def the_walk(prog):
     c = _cache(prog)
     if 'walk' not in c:
-        p = prov(prog)
-        c['walk'] = Walk(prog, p.g, p.is_watch_handler_call)
+        prov(prog)
     return c['walk']
 
 
